@@ -6,431 +6,432 @@ open VtlModel.Errors
 
 -- exception classes: 0=DataLoadError, 1=InputValidationException, 2=RunTimeError, 3=SemanticError
 def raiseSites0 : List Site := [
-  ⟨732, 733, 106, 1, [92], true, true, [52, 91], false⟩,  -- 0 API/_InternalApi.py:106
-  ⟨732, 734, 191, 1, [11], true, true, [9], false⟩,  -- 1 API/_InternalApi.py:191
-  ⟨732, 734, 197, 1, [11], true, true, [9], false⟩,  -- 2 API/_InternalApi.py:197
-  ⟨732, 734, 206, 1, [11], true, true, [9], false⟩,  -- 3 API/_InternalApi.py:206
-  ⟨732, 734, 211, 0, [96], true, true, [24], false⟩,  -- 4 API/_InternalApi.py:211
-  ⟨732, 735, 263, 1, [11], true, true, [9], false⟩,  -- 5 API/_InternalApi.py:263
-  ⟨732, 735, 269, 1, [11], true, true, [9], false⟩,  -- 6 API/_InternalApi.py:269
-  ⟨732, 735, 277, 1, [11], true, true, [9], false⟩,  -- 7 API/_InternalApi.py:277
-  ⟨732, 735, 287, 0, [96], true, true, [24], false⟩,  -- 8 API/_InternalApi.py:287
-  ⟨732, 736, 339, 1, [11], true, true, [9], false⟩,  -- 9 API/_InternalApi.py:339
-  ⟨732, 736, 345, 0, [96], true, true, [24], false⟩,  -- 10 API/_InternalApi.py:345
-  ⟨732, 736, 374, 1, [16], true, true, [13, 15], false⟩,  -- 11 API/_InternalApi.py:374
-  ⟨732, 737, 426, 1, [57], true, true, [29], false⟩,  -- 12 API/_InternalApi.py:426
-  ⟨732, 737, 429, 1, [63], true, true, [29, 62, 60, 44], false⟩,  -- 13 API/_InternalApi.py:429
-  ⟨732, 738, 528, 1, [146], true, true, [], false⟩,  -- 14 API/_InternalApi.py:528
-  ⟨732, 739, 577, 1, [11], true, true, [9], false⟩,  -- 15 API/_InternalApi.py:577
-  ⟨732, 739, 581, 0, [96], true, true, [24], false⟩,  -- 16 API/_InternalApi.py:581
-  ⟨732, 739, 583, 1, [16], true, true, [13, 15], false⟩,  -- 17 API/_InternalApi.py:583
-  ⟨732, 740, 612, 1, [92], true, true, [52, 91], false⟩,  -- 18 API/_InternalApi.py:612
-  ⟨732, 741, 617, 1, [16], true, true, [13, 15], false⟩,  -- 19 API/_InternalApi.py:617
-  ⟨732, 742, 653, 1, [11], true, true, [9], false⟩,  -- 20 API/_InternalApi.py:653
-  ⟨732, 742, 657, 0, [96], true, true, [24], false⟩,  -- 21 API/_InternalApi.py:657
-  ⟨732, 742, 665, 1, [16], true, true, [13, 15], false⟩,  -- 22 API/_InternalApi.py:665
-  ⟨732, 743, 701, 1, [11], true, true, [9], false⟩,  -- 23 API/_InternalApi.py:701
-  ⟨732, 743, 705, 0, [96], true, true, [24], false⟩,  -- 24 API/_InternalApi.py:705
-  ⟨732, 744, 729, 1, [11], true, true, [9], false⟩,  -- 25 API/_InternalApi.py:729
-  ⟨732, 744, 731, 0, [96], true, true, [24], false⟩,  -- 26 API/_InternalApi.py:731
-  ⟨732, 744, 733, 1, [16], true, true, [13, 15], false⟩,  -- 27 API/_InternalApi.py:733
-  ⟨732, 745, 751, 1, [11], true, true, [9], false⟩,  -- 28 API/_InternalApi.py:751
-  ⟨732, 745, 759, 0, [100], true, true, [98], false⟩,  -- 29 API/_InternalApi.py:759
-  ⟨732, 745, 762, 0, [100], true, true, [98], false⟩,  -- 30 API/_InternalApi.py:762
-  ⟨732, 745, 765, 0, [100], true, true, [98], false⟩,  -- 31 API/_InternalApi.py:765
-  ⟨732, 746, 981, 0, [137], true, true, [91, 136], false⟩,  -- 32 API/_InternalApi.py:981
-  ⟨732, 746, 984, 0, [137], true, true, [91, 136], false⟩,  -- 33 API/_InternalApi.py:984
-  ⟨732, 746, 994, 0, [137], true, true, [91, 136], false⟩,  -- 34 API/_InternalApi.py:994
-  ⟨732, 747, 1010, 1, [7], true, true, [5], false⟩,  -- 35 API/_InternalApi.py:1010
-  ⟨748, 749, 579, 1, [88], true, true, [60], false⟩,  -- 36 API/__init__.py:579
-  ⟨748, 749, 588, 1, [82], true, true, [80], false⟩,  -- 37 API/__init__.py:588
-  ⟨748, 749, 596, 1, [73], true, true, [71], false⟩,  -- 38 API/__init__.py:596
-  ⟨748, 749, 598, 1, [79], true, true, [77], false⟩,  -- 39 API/__init__.py:598
-  ⟨748, 749, 607, 1, [85], true, true, [84], false⟩,  -- 40 API/__init__.py:607
-  ⟨750, 751, 103, 1, [75], true, true, [], false⟩,  -- 41 API/_sdmx_utils.py:103
-  ⟨750, 751, 105, 1, [69], true, true, [68], false⟩,  -- 42 API/_sdmx_utils.py:105
-  ⟨750, 751, 108, 1, [73], true, true, [71], false⟩,  -- 43 API/_sdmx_utils.py:108
-  ⟨752, 753, 287, 3, [611], true, true, [164], false⟩,  -- 44 AST/ASTConstructor.py:287
-  ⟨752, 754, 475, 3, [359], true, true, [357], false⟩,  -- 45 AST/ASTConstructor.py:475
-  ⟨755, 756, 535, 3, [609], true, true, [573], false⟩,  -- 46 AST/ASTConstructorModules/Expr.py:535
-  ⟨755, 756, 544, 3, [609], true, true, [573], false⟩,  -- 47 AST/ASTConstructorModules/Expr.py:544
-  ⟨755, 757, 1047, 3, [616], true, true, [], false⟩,  -- 48 AST/ASTConstructorModules/Expr.py:1047
-  ⟨755, 758, 1234, 3, [345], true, true, [164], false⟩  -- 49 AST/ASTConstructorModules/Expr.py:1234
+  ⟨740, 741, 106, 1, [92], true, true, [52, 91], false⟩,  -- 0 API/_InternalApi.py:106
+  ⟨740, 742, 191, 1, [11], true, true, [9], false⟩,  -- 1 API/_InternalApi.py:191
+  ⟨740, 742, 197, 1, [11], true, true, [9], false⟩,  -- 2 API/_InternalApi.py:197
+  ⟨740, 742, 206, 1, [11], true, true, [9], false⟩,  -- 3 API/_InternalApi.py:206
+  ⟨740, 742, 211, 0, [96], true, true, [24], false⟩,  -- 4 API/_InternalApi.py:211
+  ⟨740, 743, 263, 1, [11], true, true, [9], false⟩,  -- 5 API/_InternalApi.py:263
+  ⟨740, 743, 269, 1, [11], true, true, [9], false⟩,  -- 6 API/_InternalApi.py:269
+  ⟨740, 743, 277, 1, [11], true, true, [9], false⟩,  -- 7 API/_InternalApi.py:277
+  ⟨740, 743, 287, 0, [96], true, true, [24], false⟩,  -- 8 API/_InternalApi.py:287
+  ⟨740, 744, 339, 1, [11], true, true, [9], false⟩,  -- 9 API/_InternalApi.py:339
+  ⟨740, 744, 345, 0, [96], true, true, [24], false⟩,  -- 10 API/_InternalApi.py:345
+  ⟨740, 744, 374, 1, [16], true, true, [13, 15], false⟩,  -- 11 API/_InternalApi.py:374
+  ⟨740, 745, 426, 1, [57], true, true, [29], false⟩,  -- 12 API/_InternalApi.py:426
+  ⟨740, 745, 429, 1, [63], true, true, [29, 62, 60, 44], false⟩,  -- 13 API/_InternalApi.py:429
+  ⟨740, 746, 528, 1, [146], true, true, [], false⟩,  -- 14 API/_InternalApi.py:528
+  ⟨740, 747, 577, 1, [11], true, true, [9], false⟩,  -- 15 API/_InternalApi.py:577
+  ⟨740, 747, 581, 0, [96], true, true, [24], false⟩,  -- 16 API/_InternalApi.py:581
+  ⟨740, 747, 583, 1, [16], true, true, [13, 15], false⟩,  -- 17 API/_InternalApi.py:583
+  ⟨740, 748, 612, 1, [92], true, true, [52, 91], false⟩,  -- 18 API/_InternalApi.py:612
+  ⟨740, 749, 617, 1, [16], true, true, [13, 15], false⟩,  -- 19 API/_InternalApi.py:617
+  ⟨740, 750, 653, 1, [11], true, true, [9], false⟩,  -- 20 API/_InternalApi.py:653
+  ⟨740, 750, 657, 0, [96], true, true, [24], false⟩,  -- 21 API/_InternalApi.py:657
+  ⟨740, 750, 665, 1, [16], true, true, [13, 15], false⟩,  -- 22 API/_InternalApi.py:665
+  ⟨740, 751, 701, 1, [11], true, true, [9], false⟩,  -- 23 API/_InternalApi.py:701
+  ⟨740, 751, 705, 0, [96], true, true, [24], false⟩,  -- 24 API/_InternalApi.py:705
+  ⟨740, 752, 729, 1, [11], true, true, [9], false⟩,  -- 25 API/_InternalApi.py:729
+  ⟨740, 752, 731, 0, [96], true, true, [24], false⟩,  -- 26 API/_InternalApi.py:731
+  ⟨740, 752, 733, 1, [16], true, true, [13, 15], false⟩,  -- 27 API/_InternalApi.py:733
+  ⟨740, 753, 751, 1, [11], true, true, [9], false⟩,  -- 28 API/_InternalApi.py:751
+  ⟨740, 753, 759, 0, [100], true, true, [98], false⟩,  -- 29 API/_InternalApi.py:759
+  ⟨740, 753, 762, 0, [100], true, true, [98], false⟩,  -- 30 API/_InternalApi.py:762
+  ⟨740, 753, 765, 0, [100], true, true, [98], false⟩,  -- 31 API/_InternalApi.py:765
+  ⟨740, 754, 981, 0, [137], true, true, [91, 136], false⟩,  -- 32 API/_InternalApi.py:981
+  ⟨740, 754, 984, 0, [137], true, true, [91, 136], false⟩,  -- 33 API/_InternalApi.py:984
+  ⟨740, 754, 994, 0, [137], true, true, [91, 136], false⟩,  -- 34 API/_InternalApi.py:994
+  ⟨740, 755, 1010, 1, [7], true, true, [5], false⟩,  -- 35 API/_InternalApi.py:1010
+  ⟨756, 757, 580, 1, [88], true, true, [60], false⟩,  -- 36 API/__init__.py:580
+  ⟨756, 757, 589, 1, [82], true, true, [80], false⟩,  -- 37 API/__init__.py:589
+  ⟨756, 757, 597, 1, [73], true, true, [71], false⟩,  -- 38 API/__init__.py:597
+  ⟨756, 757, 599, 1, [79], true, true, [77], false⟩,  -- 39 API/__init__.py:599
+  ⟨756, 757, 608, 1, [85], true, true, [84], false⟩,  -- 40 API/__init__.py:608
+  ⟨758, 759, 103, 1, [75], true, true, [], false⟩,  -- 41 API/_sdmx_utils.py:103
+  ⟨758, 759, 105, 1, [69], true, true, [68], false⟩,  -- 42 API/_sdmx_utils.py:105
+  ⟨758, 759, 108, 1, [73], true, true, [71], false⟩,  -- 43 API/_sdmx_utils.py:108
+  ⟨760, 761, 287, 3, [619], true, true, [164], false⟩,  -- 44 AST/ASTConstructor.py:287
+  ⟨760, 762, 475, 3, [362], true, true, [360], false⟩,  -- 45 AST/ASTConstructor.py:475
+  ⟨763, 764, 535, 3, [617], true, true, [581], false⟩,  -- 46 AST/ASTConstructorModules/Expr.py:535
+  ⟨763, 764, 544, 3, [617], true, true, [581], false⟩,  -- 47 AST/ASTConstructorModules/Expr.py:544
+  ⟨763, 765, 1047, 3, [624], true, true, [], false⟩,  -- 48 AST/ASTConstructorModules/Expr.py:1047
+  ⟨763, 766, 1234, 3, [348], true, true, [164], false⟩  -- 49 AST/ASTConstructorModules/Expr.py:1234
 ]
 def raiseSites1 : List Site := [
-  ⟨755, 759, 1354, 3, [345], true, true, [164], false⟩,  -- 50 AST/ASTConstructorModules/Expr.py:1354
-  ⟨760, 761, 338, 3, [609], true, true, [573], false⟩,  -- 51 AST/ASTConstructorModules/ExprComponents.py:338
-  ⟨760, 761, 347, 3, [609], true, true, [573], false⟩,  -- 52 AST/ASTConstructorModules/ExprComponents.py:347
-  ⟨760, 762, 630, 3, [512], true, true, [164], false⟩,  -- 53 AST/ASTConstructorModules/ExprComponents.py:630
-  ⟨763, 764, 137, 3, [606], true, true, [], false⟩,  -- 54 AST/DAG/__init__.py:137
-  ⟨763, 765, 163, 3, [614], true, true, [613, 164], false⟩,  -- 55 AST/DAG/__init__.py:163
-  ⟨763, 766, 194, 3, [534], true, true, [533], false⟩,  -- 56 AST/DAG/__init__.py:194
-  ⟨767, 768, 79, 2, [648], true, true, [647], false⟩,  -- 57 DataTypes/TimeHandling.py:79
-  ⟨767, 769, 125, 2, [665], true, true, [664], false⟩,  -- 58 DataTypes/TimeHandling.py:125
-  ⟨767, 770, 202, 2, [680], true, true, [676], false⟩,  -- 59 DataTypes/TimeHandling.py:202
-  ⟨767, 771, 221, 2, [648], true, true, [647], false⟩,  -- 60 DataTypes/TimeHandling.py:221
-  ⟨767, 772, 235, 2, [670], true, true, [669, 667], false⟩,  -- 61 DataTypes/TimeHandling.py:235
-  ⟨767, 772, 244, 2, [677], true, true, [674, 676], false⟩,  -- 62 DataTypes/TimeHandling.py:244
-  ⟨767, 772, 247, 2, [677], true, true, [674, 676], false⟩,  -- 63 DataTypes/TimeHandling.py:247
-  ⟨767, 773, 273, 2, [702], true, true, [164, 700, 701], false⟩,  -- 64 DataTypes/TimeHandling.py:273
-  ⟨767, 774, 342, 2, [645], true, true, [643, 44], false⟩,  -- 65 DataTypes/TimeHandling.py:342
-  ⟨767, 775, 372, 2, [707], true, true, [647], false⟩,  -- 66 DataTypes/TimeHandling.py:372
-  ⟨767, 776, 448, 2, [659], true, true, [657, 44], false⟩,  -- 67 DataTypes/TimeHandling.py:448
-  ⟨767, 777, 456, 2, [662], true, true, [657, 44], false⟩,  -- 68 DataTypes/TimeHandling.py:456
-  ⟨767, 778, 490, 2, [696], true, true, [164, 114], false⟩,  -- 69 DataTypes/TimeHandling.py:490
-  ⟨767, 779, 493, 2, [696], true, true, [164, 114], false⟩,  -- 70 DataTypes/TimeHandling.py:493
-  ⟨767, 780, 496, 2, [696], true, true, [164, 114], false⟩,  -- 71 DataTypes/TimeHandling.py:496
-  ⟨767, 781, 499, 2, [696], true, true, [164, 114], false⟩,  -- 72 DataTypes/TimeHandling.py:499
-  ⟨767, 782, 585, 2, [654], true, true, [650, 652], false⟩,  -- 73 DataTypes/TimeHandling.py:585
-  ⟨767, 783, 612, 2, [672], true, true, [657], false⟩,  -- 74 DataTypes/TimeHandling.py:612
-  ⟨767, 783, 616, 2, [672], true, true, [657], false⟩,  -- 75 DataTypes/TimeHandling.py:616
-  ⟨784, 785, 132, 3, [232], true, true, [158, 159, 44], false⟩,  -- 76 DataTypes/__init__.py:132
-  ⟨784, 786, 155, 2, [232], true, true, [158, 159, 44], false⟩,  -- 77 DataTypes/__init__.py:155
-  ⟨784, 787, 186, 2, [232], true, true, [158, 159, 44], false⟩,  -- 78 DataTypes/__init__.py:186
-  ⟨784, 788, 206, 2, [232], true, true, [158, 159, 44], false⟩,  -- 79 DataTypes/__init__.py:206
-  ⟨784, 789, 269, 2, [232], true, true, [158, 159, 44], false⟩,  -- 80 DataTypes/__init__.py:269
-  ⟨784, 790, 286, 2, [232], true, true, [158, 159, 44], false⟩,  -- 81 DataTypes/__init__.py:286
-  ⟨784, 790, 293, 2, [232], true, true, [158, 159, 44], false⟩,  -- 82 DataTypes/__init__.py:293
-  ⟨784, 790, 301, 2, [232], true, true, [158, 159, 44], false⟩,  -- 83 DataTypes/__init__.py:301
-  ⟨784, 791, 360, 2, [232], true, true, [158, 159, 44], false⟩,  -- 84 DataTypes/__init__.py:360
-  ⟨784, 792, 371, 2, [232], true, true, [158, 159, 44], false⟩,  -- 85 DataTypes/__init__.py:371
-  ⟨784, 793, 399, 2, [232], true, true, [158, 159, 44], false⟩,  -- 86 DataTypes/__init__.py:399
-  ⟨784, 794, 414, 2, [232], true, true, [158, 159, 44], false⟩,  -- 87 DataTypes/__init__.py:414
-  ⟨784, 794, 424, 2, [232], true, true, [158, 159, 44], false⟩,  -- 88 DataTypes/__init__.py:424
-  ⟨784, 794, 431, 2, [232], true, true, [158, 159, 44], false⟩,  -- 89 DataTypes/__init__.py:431
-  ⟨784, 795, 459, 2, [232], true, true, [158, 159, 44], false⟩,  -- 90 DataTypes/__init__.py:459
-  ⟨784, 796, 472, 2, [232], true, true, [158, 159, 44], false⟩,  -- 91 DataTypes/__init__.py:472
-  ⟨784, 796, 485, 2, [232], true, true, [158, 159, 44], false⟩,  -- 92 DataTypes/__init__.py:485
-  ⟨784, 796, 496, 2, [232], true, true, [158, 159, 44], false⟩,  -- 93 DataTypes/__init__.py:496
-  ⟨784, 796, 503, 2, [232], true, true, [158, 159, 44], false⟩,  -- 94 DataTypes/__init__.py:503
-  ⟨784, 797, 548, 1, [232], true, true, [158, 159, 44], false⟩,  -- 95 DataTypes/__init__.py:548
-  ⟨784, 798, 558, 2, [232], true, true, [158, 159, 44], false⟩,  -- 96 DataTypes/__init__.py:558
-  ⟨784, 799, 574, 2, [232], true, true, [158, 159, 44], false⟩,  -- 97 DataTypes/__init__.py:574
-  ⟨784, 799, 583, 2, [232], true, true, [158, 159, 44], false⟩,  -- 98 DataTypes/__init__.py:583
-  ⟨784, 800, 634, 2, [232], true, true, [158, 159, 44], false⟩  -- 99 DataTypes/__init__.py:634
+  ⟨763, 767, 1354, 3, [348], true, true, [164], false⟩,  -- 50 AST/ASTConstructorModules/Expr.py:1354
+  ⟨768, 769, 338, 3, [617], true, true, [581], false⟩,  -- 51 AST/ASTConstructorModules/ExprComponents.py:338
+  ⟨768, 769, 347, 3, [617], true, true, [581], false⟩,  -- 52 AST/ASTConstructorModules/ExprComponents.py:347
+  ⟨768, 770, 630, 3, [517], true, true, [164], false⟩,  -- 53 AST/ASTConstructorModules/ExprComponents.py:630
+  ⟨771, 772, 147, 3, [614], true, true, [], false⟩,  -- 54 AST/DAG/__init__.py:147
+  ⟨771, 773, 173, 3, [622], true, true, [621, 164], false⟩,  -- 55 AST/DAG/__init__.py:173
+  ⟨771, 774, 204, 3, [539], true, true, [538], false⟩,  -- 56 AST/DAG/__init__.py:204
+  ⟨775, 776, 79, 2, [656], true, true, [655], false⟩,  -- 57 DataTypes/TimeHandling.py:79
+  ⟨775, 777, 125, 2, [673], true, true, [672], false⟩,  -- 58 DataTypes/TimeHandling.py:125
+  ⟨775, 778, 202, 2, [688], true, true, [684], false⟩,  -- 59 DataTypes/TimeHandling.py:202
+  ⟨775, 779, 221, 2, [656], true, true, [655], false⟩,  -- 60 DataTypes/TimeHandling.py:221
+  ⟨775, 780, 235, 2, [678], true, true, [677, 675], false⟩,  -- 61 DataTypes/TimeHandling.py:235
+  ⟨775, 780, 244, 2, [685], true, true, [682, 684], false⟩,  -- 62 DataTypes/TimeHandling.py:244
+  ⟨775, 780, 247, 2, [685], true, true, [682, 684], false⟩,  -- 63 DataTypes/TimeHandling.py:247
+  ⟨775, 781, 273, 2, [710], true, true, [164, 708, 709], false⟩,  -- 64 DataTypes/TimeHandling.py:273
+  ⟨775, 782, 342, 2, [653], true, true, [651, 44], false⟩,  -- 65 DataTypes/TimeHandling.py:342
+  ⟨775, 783, 372, 2, [715], true, true, [655], false⟩,  -- 66 DataTypes/TimeHandling.py:372
+  ⟨775, 784, 448, 2, [667], true, true, [665, 44], false⟩,  -- 67 DataTypes/TimeHandling.py:448
+  ⟨775, 785, 456, 2, [670], true, true, [665, 44], false⟩,  -- 68 DataTypes/TimeHandling.py:456
+  ⟨775, 786, 490, 2, [704], true, true, [164, 114], false⟩,  -- 69 DataTypes/TimeHandling.py:490
+  ⟨775, 787, 493, 2, [704], true, true, [164, 114], false⟩,  -- 70 DataTypes/TimeHandling.py:493
+  ⟨775, 788, 496, 2, [704], true, true, [164, 114], false⟩,  -- 71 DataTypes/TimeHandling.py:496
+  ⟨775, 789, 499, 2, [704], true, true, [164, 114], false⟩,  -- 72 DataTypes/TimeHandling.py:499
+  ⟨775, 790, 585, 2, [662], true, true, [658, 660], false⟩,  -- 73 DataTypes/TimeHandling.py:585
+  ⟨775, 791, 612, 2, [680], true, true, [665], false⟩,  -- 74 DataTypes/TimeHandling.py:612
+  ⟨775, 791, 616, 2, [680], true, true, [665], false⟩,  -- 75 DataTypes/TimeHandling.py:616
+  ⟨792, 793, 132, 3, [235], true, true, [158, 159, 44], false⟩,  -- 76 DataTypes/__init__.py:132
+  ⟨792, 794, 155, 2, [235], true, true, [158, 159, 44], false⟩,  -- 77 DataTypes/__init__.py:155
+  ⟨792, 795, 186, 2, [235], true, true, [158, 159, 44], false⟩,  -- 78 DataTypes/__init__.py:186
+  ⟨792, 796, 206, 2, [235], true, true, [158, 159, 44], false⟩,  -- 79 DataTypes/__init__.py:206
+  ⟨792, 797, 269, 2, [235], true, true, [158, 159, 44], false⟩,  -- 80 DataTypes/__init__.py:269
+  ⟨792, 798, 286, 2, [235], true, true, [158, 159, 44], false⟩,  -- 81 DataTypes/__init__.py:286
+  ⟨792, 798, 293, 2, [235], true, true, [158, 159, 44], false⟩,  -- 82 DataTypes/__init__.py:293
+  ⟨792, 798, 301, 2, [235], true, true, [158, 159, 44], false⟩,  -- 83 DataTypes/__init__.py:301
+  ⟨792, 799, 360, 2, [235], true, true, [158, 159, 44], false⟩,  -- 84 DataTypes/__init__.py:360
+  ⟨792, 800, 371, 2, [235], true, true, [158, 159, 44], false⟩,  -- 85 DataTypes/__init__.py:371
+  ⟨792, 801, 399, 2, [235], true, true, [158, 159, 44], false⟩,  -- 86 DataTypes/__init__.py:399
+  ⟨792, 802, 414, 2, [235], true, true, [158, 159, 44], false⟩,  -- 87 DataTypes/__init__.py:414
+  ⟨792, 802, 424, 2, [235], true, true, [158, 159, 44], false⟩,  -- 88 DataTypes/__init__.py:424
+  ⟨792, 802, 431, 2, [235], true, true, [158, 159, 44], false⟩,  -- 89 DataTypes/__init__.py:431
+  ⟨792, 803, 459, 2, [235], true, true, [158, 159, 44], false⟩,  -- 90 DataTypes/__init__.py:459
+  ⟨792, 804, 472, 2, [235], true, true, [158, 159, 44], false⟩,  -- 91 DataTypes/__init__.py:472
+  ⟨792, 804, 485, 2, [235], true, true, [158, 159, 44], false⟩,  -- 92 DataTypes/__init__.py:485
+  ⟨792, 804, 496, 2, [235], true, true, [158, 159, 44], false⟩,  -- 93 DataTypes/__init__.py:496
+  ⟨792, 804, 503, 2, [235], true, true, [158, 159, 44], false⟩,  -- 94 DataTypes/__init__.py:503
+  ⟨792, 805, 548, 1, [235], true, true, [158, 159, 44], false⟩,  -- 95 DataTypes/__init__.py:548
+  ⟨792, 806, 558, 2, [235], true, true, [158, 159, 44], false⟩,  -- 96 DataTypes/__init__.py:558
+  ⟨792, 807, 574, 2, [235], true, true, [158, 159, 44], false⟩,  -- 97 DataTypes/__init__.py:574
+  ⟨792, 807, 583, 2, [235], true, true, [158, 159, 44], false⟩,  -- 98 DataTypes/__init__.py:583
+  ⟨792, 808, 634, 2, [235], true, true, [158, 159, 44], false⟩  -- 99 DataTypes/__init__.py:634
 ]
 def raiseSites2 : List Site := [
-  ⟨784, 801, 648, 2, [232], true, true, [158, 159, 44], false⟩,  -- 100 DataTypes/__init__.py:648
-  ⟨784, 802, 817, 3, [162], true, true, [158, 159, 161], false⟩,  -- 101 DataTypes/__init__.py:817
-  ⟨784, 802, 846, 3, [160], true, true, [158, 159], false⟩,  -- 102 DataTypes/__init__.py:846
-  ⟨784, 803, 894, 3, [160], true, true, [158, 159], false⟩,  -- 103 DataTypes/__init__.py:894
-  ⟨804, 805, 127, 3, [36], true, true, [35, 32, 34], false⟩,  -- 104 Exceptions/__init__.py:127
-  ⟨806, 807, 159, 3, [543], true, true, [], false⟩,  -- 105 Interpreter/__init__.py:159
-  ⟨806, 807, 177, 3, [635], true, true, [29], false⟩,  -- 106 Interpreter/__init__.py:177
-  ⟨806, 807, 188, 3, [66], true, true, [65], false⟩,  -- 107 Interpreter/__init__.py:188
-  ⟨806, 807, 190, 3, [66], true, true, [65], false⟩,  -- 108 Interpreter/__init__.py:190
-  ⟨806, 808, 219, 3, [604], true, true, [], false⟩,  -- 109 Interpreter/__init__.py:219
-  ⟨806, 809, 233, 3, [597], true, true, [29, 114], false⟩,  -- 110 Interpreter/__init__.py:233
-  ⟨806, 809, 240, 3, [589], true, true, [65, 588, 114], false⟩,  -- 111 Interpreter/__init__.py:240
-  ⟨806, 810, 311, 3, [622], true, true, [29], false⟩,  -- 112 Interpreter/__init__.py:311
-  ⟨806, 810, 318, 3, [626], true, true, [29, 624], false⟩,  -- 113 Interpreter/__init__.py:318
-  ⟨806, 810, 325, 3, [618, 620], false, true, [29], false⟩,  -- 114 Interpreter/__init__.py:325
-  ⟨806, 810, 361, 3, [632], true, true, [629, 29, 114], false⟩,  -- 115 Interpreter/__init__.py:361
-  ⟨806, 811, 419, 3, [251], true, true, [108, 80], false⟩,  -- 116 Interpreter/__init__.py:419
-  ⟨806, 812, 490, 3, [712], true, true, [493, 164], false⟩,  -- 117 Interpreter/__init__.py:490
-  ⟨806, 812, 494, 3, [365], true, true, [164], false⟩,  -- 118 Interpreter/__init__.py:494
-  ⟨806, 812, 497, 3, [566], true, true, [], false⟩,  -- 119 Interpreter/__init__.py:497
-  ⟨806, 813, 544, 3, [262], true, true, [], false⟩,  -- 120 Interpreter/__init__.py:544
-  ⟨806, 813, 593, 3, [727], true, true, [108, 429, 498], false⟩,  -- 121 Interpreter/__init__.py:593
-  ⟨806, 813, 604, 3, [727], true, true, [108, 429, 498], false⟩,  -- 122 Interpreter/__init__.py:604
-  ⟨806, 813, 616, 3, [712], true, true, [493, 164], false⟩,  -- 123 Interpreter/__init__.py:616
-  ⟨806, 814, 693, 3, [731], true, true, [467], false⟩,  -- 124 Interpreter/__init__.py:693
-  ⟨806, 814, 696, 3, [731], true, true, [467], false⟩,  -- 125 Interpreter/__init__.py:696
-  ⟨806, 814, 723, 3, [636], true, true, [535, 62], false⟩,  -- 126 Interpreter/__init__.py:723
-  ⟨806, 815, 737, 3, [180], true, true, [108, 80, 164], false⟩,  -- 127 Interpreter/__init__.py:737
-  ⟨806, 815, 756, 3, [265], true, true, [108], false⟩,  -- 128 Interpreter/__init__.py:756
-  ⟨806, 815, 774, 3, [180], true, true, [108, 80], false⟩,  -- 129 Interpreter/__init__.py:774
-  ⟨806, 815, 780, 3, [390], true, true, [108], false⟩,  -- 130 Interpreter/__init__.py:780
-  ⟨806, 815, 783, 3, [180], true, true, [108, 80], false⟩,  -- 131 Interpreter/__init__.py:783
-  ⟨806, 815, 801, 3, [353], true, true, [108], false⟩,  -- 132 Interpreter/__init__.py:801
-  ⟨806, 815, 804, 3, [180], true, true, [108, 80], false⟩,  -- 133 Interpreter/__init__.py:804
-  ⟨806, 815, 819, 3, [721], true, true, [80], false⟩,  -- 134 Interpreter/__init__.py:819
-  ⟨806, 816, 837, 3, [543], true, true, [367], false⟩,  -- 135 Interpreter/__init__.py:837
-  ⟨806, 816, 849, 3, [729], true, true, [429], false⟩,  -- 136 Interpreter/__init__.py:849
-  ⟨806, 816, 851, 3, [553], true, true, [29], false⟩,  -- 137 Interpreter/__init__.py:851
-  ⟨806, 816, 855, 3, [555], true, true, [29], false⟩,  -- 138 Interpreter/__init__.py:855
-  ⟨806, 817, 861, 3, [199], true, true, [164], false⟩,  -- 139 Interpreter/__init__.py:861
-  ⟨806, 817, 875, 3, [568], true, true, [164], false⟩,  -- 140 Interpreter/__init__.py:875
-  ⟨806, 818, 968, 3, [287], true, true, [285, 164, 283], false⟩,  -- 141 Interpreter/__init__.py:968
-  ⟨806, 819, 1009, 3, [170], true, true, [164], false⟩,  -- 142 Interpreter/__init__.py:1009
-  ⟨806, 819, 1011, 3, [328], true, true, [29, 164], false⟩,  -- 143 Interpreter/__init__.py:1011
-  ⟨806, 819, 1013, 3, [325], true, true, [29, 164], false⟩,  -- 144 Interpreter/__init__.py:1013
-  ⟨806, 820, 1047, 3, [390], true, true, [108], false⟩,  -- 145 Interpreter/__init__.py:1047
-  ⟨806, 821, 1120, 3, [822], true, true, [206, 164], false⟩,  -- 146 Interpreter/__init__.py:1120
-  ⟨806, 821, 1133, 3, [211], true, true, [114], false⟩,  -- 147 Interpreter/__init__.py:1133
-  ⟨806, 821, 1149, 3, [636], true, true, [535, 62], false⟩,  -- 148 Interpreter/__init__.py:1149
-  ⟨806, 823, 1175, 3, [546], true, true, [545, 539], false⟩  -- 149 Interpreter/__init__.py:1175
+  ⟨792, 809, 648, 2, [235], true, true, [158, 159, 44], false⟩,  -- 100 DataTypes/__init__.py:648
+  ⟨792, 810, 817, 3, [162], true, true, [158, 159, 161], false⟩,  -- 101 DataTypes/__init__.py:817
+  ⟨792, 810, 848, 3, [160], true, true, [158, 159], false⟩,  -- 102 DataTypes/__init__.py:848
+  ⟨792, 811, 896, 3, [160], true, true, [158, 159], false⟩,  -- 103 DataTypes/__init__.py:896
+  ⟨812, 813, 127, 3, [36], true, true, [35, 32, 34], false⟩,  -- 104 Exceptions/__init__.py:127
+  ⟨814, 815, 159, 3, [548], true, true, [], false⟩,  -- 105 Interpreter/__init__.py:159
+  ⟨814, 815, 177, 3, [643], true, true, [29], false⟩,  -- 106 Interpreter/__init__.py:177
+  ⟨814, 815, 188, 3, [66], true, true, [65], false⟩,  -- 107 Interpreter/__init__.py:188
+  ⟨814, 815, 190, 3, [66], true, true, [65], false⟩,  -- 108 Interpreter/__init__.py:190
+  ⟨814, 816, 219, 3, [612], true, true, [], false⟩,  -- 109 Interpreter/__init__.py:219
+  ⟨814, 817, 233, 3, [605], true, true, [29, 114], false⟩,  -- 110 Interpreter/__init__.py:233
+  ⟨814, 817, 240, 3, [597], true, true, [65, 596, 114], false⟩,  -- 111 Interpreter/__init__.py:240
+  ⟨814, 818, 311, 3, [630], true, true, [29], false⟩,  -- 112 Interpreter/__init__.py:311
+  ⟨814, 818, 318, 3, [634], true, true, [29, 632], false⟩,  -- 113 Interpreter/__init__.py:318
+  ⟨814, 818, 325, 3, [626, 628], false, true, [29], false⟩,  -- 114 Interpreter/__init__.py:325
+  ⟨814, 818, 361, 3, [640], true, true, [637, 29, 114], false⟩,  -- 115 Interpreter/__init__.py:361
+  ⟨814, 819, 419, 3, [254], true, true, [108, 80], false⟩,  -- 116 Interpreter/__init__.py:419
+  ⟨814, 820, 490, 3, [720], true, true, [498, 164], false⟩,  -- 117 Interpreter/__init__.py:490
+  ⟨814, 820, 494, 3, [368], true, true, [164], false⟩,  -- 118 Interpreter/__init__.py:494
+  ⟨814, 820, 497, 3, [571], true, true, [], false⟩,  -- 119 Interpreter/__init__.py:497
+  ⟨814, 821, 544, 3, [265], true, true, [80, 164, 263], false⟩,  -- 120 Interpreter/__init__.py:544
+  ⟨814, 821, 598, 3, [735], true, true, [108, 432, 503], false⟩,  -- 121 Interpreter/__init__.py:598
+  ⟨814, 821, 609, 3, [735], true, true, [108, 432, 503], false⟩,  -- 122 Interpreter/__init__.py:609
+  ⟨814, 821, 621, 3, [720], true, true, [498, 164], false⟩,  -- 123 Interpreter/__init__.py:621
+  ⟨814, 822, 698, 3, [739], true, true, [470], false⟩,  -- 124 Interpreter/__init__.py:698
+  ⟨814, 822, 701, 3, [739], true, true, [470], false⟩,  -- 125 Interpreter/__init__.py:701
+  ⟨814, 822, 728, 3, [644], true, true, [540, 62], false⟩,  -- 126 Interpreter/__init__.py:728
+  ⟨814, 823, 742, 3, [180], true, true, [108, 80, 164], false⟩,  -- 127 Interpreter/__init__.py:742
+  ⟨814, 823, 761, 3, [268], true, true, [108], false⟩,  -- 128 Interpreter/__init__.py:761
+  ⟨814, 823, 779, 3, [180], true, true, [108, 80], false⟩,  -- 129 Interpreter/__init__.py:779
+  ⟨814, 823, 785, 3, [393], true, true, [108], false⟩,  -- 130 Interpreter/__init__.py:785
+  ⟨814, 823, 788, 3, [180], true, true, [108, 80], false⟩,  -- 131 Interpreter/__init__.py:788
+  ⟨814, 823, 806, 3, [356], true, true, [108], false⟩,  -- 132 Interpreter/__init__.py:806
+  ⟨814, 823, 809, 3, [180], true, true, [108, 80], false⟩,  -- 133 Interpreter/__init__.py:809
+  ⟨814, 823, 824, 3, [729], true, true, [80], false⟩,  -- 134 Interpreter/__init__.py:824
+  ⟨814, 824, 842, 3, [548], true, true, [370], false⟩,  -- 135 Interpreter/__init__.py:842
+  ⟨814, 824, 854, 3, [737], true, true, [432], false⟩,  -- 136 Interpreter/__init__.py:854
+  ⟨814, 824, 856, 3, [558], true, true, [29], false⟩,  -- 137 Interpreter/__init__.py:856
+  ⟨814, 824, 860, 3, [560], true, true, [29], false⟩,  -- 138 Interpreter/__init__.py:860
+  ⟨814, 825, 866, 3, [199], true, true, [164], false⟩,  -- 139 Interpreter/__init__.py:866
+  ⟨814, 825, 880, 3, [573], true, true, [164], false⟩,  -- 140 Interpreter/__init__.py:880
+  ⟨814, 826, 973, 3, [290], true, true, [288, 164, 286], false⟩,  -- 141 Interpreter/__init__.py:973
+  ⟨814, 827, 1014, 3, [170], true, true, [164], false⟩,  -- 142 Interpreter/__init__.py:1014
+  ⟨814, 827, 1016, 3, [331], true, true, [29, 164], false⟩,  -- 143 Interpreter/__init__.py:1016
+  ⟨814, 827, 1018, 3, [328], true, true, [29, 164], false⟩,  -- 144 Interpreter/__init__.py:1018
+  ⟨814, 828, 1052, 3, [393], true, true, [108], false⟩,  -- 145 Interpreter/__init__.py:1052
+  ⟨814, 829, 1125, 3, [214], true, true, [206, 164], false⟩,  -- 146 Interpreter/__init__.py:1125
+  ⟨814, 829, 1138, 3, [211], true, true, [114], false⟩,  -- 147 Interpreter/__init__.py:1138
+  ⟨814, 829, 1154, 3, [644], true, true, [540, 62], false⟩,  -- 148 Interpreter/__init__.py:1154
+  ⟨814, 830, 1180, 3, [551], true, true, [550, 544], false⟩  -- 149 Interpreter/__init__.py:1180
 ]
 def raiseSites3 : List Site := [
-  ⟨806, 823, 1177, 3, [546], true, true, [545, 539], false⟩,  -- 150 Interpreter/__init__.py:1177
-  ⟨806, 823, 1180, 3, [199], true, true, [164], false⟩,  -- 151 Interpreter/__init__.py:1180
-  ⟨806, 823, 1186, 3, [338], true, true, [164], false⟩,  -- 152 Interpreter/__init__.py:1186
-  ⟨806, 823, 1189, 3, [343], true, true, [342, 340, 164], false⟩,  -- 153 Interpreter/__init__.py:1189
-  ⟨806, 823, 1196, 3, [345], true, true, [164], false⟩,  -- 154 Interpreter/__init__.py:1196
-  ⟨806, 823, 1206, 3, [350], true, true, [342, 340, 164], false⟩,  -- 155 Interpreter/__init__.py:1206
-  ⟨806, 823, 1221, 3, [347], true, true, [], false⟩,  -- 156 Interpreter/__init__.py:1221
-  ⟨806, 823, 1227, 3, [363], true, true, [362, 357], false⟩,  -- 157 Interpreter/__init__.py:1227
-  ⟨806, 823, 1282, 3, [636], true, true, [535, 62], false⟩,  -- 158 Interpreter/__init__.py:1282
-  ⟨806, 824, 1287, 3, [546], true, true, [545, 539], false⟩,  -- 159 Interpreter/__init__.py:1287
-  ⟨806, 824, 1291, 3, [546], true, true, [545, 539], false⟩,  -- 160 Interpreter/__init__.py:1291
-  ⟨806, 824, 1297, 3, [199], true, true, [164], false⟩,  -- 161 Interpreter/__init__.py:1297
-  ⟨806, 824, 1303, 3, [180], true, true, [108, 80], false⟩,  -- 162 Interpreter/__init__.py:1303
-  ⟨806, 824, 1315, 3, [343], true, true, [342, 340, 164], false⟩,  -- 163 Interpreter/__init__.py:1315
-  ⟨806, 825, 1429, 3, [640], true, true, [638], false⟩,  -- 164 Interpreter/__init__.py:1429
-  ⟨806, 825, 1432, 3, [729], true, true, [429], false⟩,  -- 165 Interpreter/__init__.py:1432
-  ⟨806, 825, 1435, 3, [636], true, true, [535, 62], false⟩,  -- 166 Interpreter/__init__.py:1435
-  ⟨806, 826, 1462, 3, [723], true, true, [], false⟩,  -- 167 Interpreter/__init__.py:1462
-  ⟨806, 827, 1472, 3, [729], true, true, [429], false⟩,  -- 168 Interpreter/__init__.py:1472
-  ⟨806, 827, 1474, 3, [537], true, true, [535, 62], false⟩,  -- 169 Interpreter/__init__.py:1474
-  ⟨806, 827, 1482, 3, [537], true, true, [535, 62], false⟩,  -- 170 Interpreter/__init__.py:1482
-  ⟨806, 827, 1486, 3, [564], true, true, [164], false⟩,  -- 171 Interpreter/__init__.py:1486
-  ⟨806, 827, 1499, 3, [562], true, true, [342, 164, 560], false⟩,  -- 172 Interpreter/__init__.py:1499
-  ⟨806, 827, 1516, 3, [575], true, true, [164, 573, 158, 159], false⟩,  -- 173 Interpreter/__init__.py:1516
-  ⟨806, 827, 1527, 3, [575], true, true, [164, 573, 158, 159], false⟩,  -- 174 Interpreter/__init__.py:1527
-  ⟨806, 827, 1544, 3, [575], true, true, [164, 573, 158, 159], false⟩,  -- 175 Interpreter/__init__.py:1544
-  ⟨806, 827, 1553, 3, [718], true, true, [164, 717, 469, 714], false⟩,  -- 176 Interpreter/__init__.py:1553
-  ⟨806, 827, 1591, 3, [575], true, true, [164, 573, 158, 159], false⟩,  -- 177 Interpreter/__init__.py:1591
-  ⟨806, 828, 1635, 3, [616], true, true, [], false⟩,  -- 178 Interpreter/__init__.py:1635
-  ⟨806, 828, 1637, 3, [616], true, true, [], false⟩,  -- 179 Interpreter/__init__.py:1637
-  ⟨829, 830, 53, 1, [63], true, true, [29, 62, 60, 44], false⟩,  -- 180 Model/__init__.py:53
-  ⟨829, 831, 279, 3, [42], true, true, [38, 40], false⟩,  -- 181 Model/__init__.py:279
-  ⟨829, 832, 452, 1, [63], true, true, [29, 62, 60, 44], false⟩,  -- 182 Model/__init__.py:452
-  ⟨833, 834, 51, 3, [175], true, true, [29, 164], false⟩,  -- 183 Operators/Aggregation.py:51
-  ⟨833, 834, 55, 3, [180], true, true, [108, 80, 164], false⟩,  -- 184 Operators/Aggregation.py:55
-  ⟨833, 834, 62, 3, [209], true, true, [206, 208, 164], false⟩,  -- 185 Operators/Aggregation.py:62
-  ⟨833, 834, 88, 3, [524], true, true, [522, 164], false⟩,  -- 186 Operators/Aggregation.py:88
-  ⟨835, 836, 80, 3, [180], true, true, [108, 80, 164], false⟩,  -- 187 Operators/Analytic.py:80
-  ⟨835, 836, 87, 3, [213], true, true, [206, 208, 164], false⟩,  -- 188 Operators/Analytic.py:87
-  ⟨835, 836, 95, 3, [180], true, true, [108, 80, 164], false⟩,  -- 189 Operators/Analytic.py:95
-  ⟨835, 836, 103, 3, [524], true, true, [522, 164], false⟩,  -- 190 Operators/Analytic.py:103
-  ⟨835, 836, 115, 3, [527], true, true, [108, 491, 164], false⟩,  -- 191 Operators/Analytic.py:115
-  ⟨835, 836, 125, 3, [524], true, true, [522, 164], false⟩,  -- 192 Operators/Analytic.py:125
-  ⟨835, 836, 134, 3, [524], true, true, [522, 164], false⟩,  -- 193 Operators/Analytic.py:134
-  ⟨835, 836, 169, 3, [175], true, true, [29, 164], false⟩,  -- 194 Operators/Analytic.py:169
-  ⟨837, 838, 17, 3, [269], true, true, [108, 164], false⟩,  -- 195 Operators/Assignment.py:17
-  ⟨839, 840, 50, 3, [225], true, true, [164, 158, 159], false⟩,  -- 196 Operators/CastOperator.py:50
-  ⟨841, 842, 32, 3, [269], true, true, [108, 164], false⟩,  -- 197 Operators/Clause.py:32
-  ⟨841, 843, 70, 3, [269], true, true, [108, 164], false⟩,  -- 198 Operators/Clause.py:70
-  ⟨841, 844, 114, 3, [180], true, true, [108, 80, 164], false⟩  -- 199 Operators/Clause.py:114
+  ⟨814, 830, 1182, 3, [551], true, true, [550, 544], false⟩,  -- 150 Interpreter/__init__.py:1182
+  ⟨814, 830, 1185, 3, [199], true, true, [164], false⟩,  -- 151 Interpreter/__init__.py:1185
+  ⟨814, 830, 1191, 3, [341], true, true, [164], false⟩,  -- 152 Interpreter/__init__.py:1191
+  ⟨814, 830, 1194, 3, [346], true, true, [345, 343, 164], false⟩,  -- 153 Interpreter/__init__.py:1194
+  ⟨814, 830, 1201, 3, [348], true, true, [164], false⟩,  -- 154 Interpreter/__init__.py:1201
+  ⟨814, 830, 1211, 3, [353], true, true, [345, 343, 164], false⟩,  -- 155 Interpreter/__init__.py:1211
+  ⟨814, 830, 1226, 3, [350], true, true, [], false⟩,  -- 156 Interpreter/__init__.py:1226
+  ⟨814, 830, 1232, 3, [366], true, true, [365, 360], false⟩,  -- 157 Interpreter/__init__.py:1232
+  ⟨814, 830, 1287, 3, [644], true, true, [540, 62], false⟩,  -- 158 Interpreter/__init__.py:1287
+  ⟨814, 831, 1292, 3, [551], true, true, [550, 544], false⟩,  -- 159 Interpreter/__init__.py:1292
+  ⟨814, 831, 1296, 3, [551], true, true, [550, 544], false⟩,  -- 160 Interpreter/__init__.py:1296
+  ⟨814, 831, 1302, 3, [199], true, true, [164], false⟩,  -- 161 Interpreter/__init__.py:1302
+  ⟨814, 831, 1308, 3, [180], true, true, [108, 80], false⟩,  -- 162 Interpreter/__init__.py:1308
+  ⟨814, 831, 1320, 3, [346], true, true, [345, 343, 164], false⟩,  -- 163 Interpreter/__init__.py:1320
+  ⟨814, 832, 1434, 3, [648], true, true, [646], false⟩,  -- 164 Interpreter/__init__.py:1434
+  ⟨814, 832, 1437, 3, [737], true, true, [432], false⟩,  -- 165 Interpreter/__init__.py:1437
+  ⟨814, 832, 1440, 3, [644], true, true, [540, 62], false⟩,  -- 166 Interpreter/__init__.py:1440
+  ⟨814, 833, 1467, 3, [731], true, true, [], false⟩,  -- 167 Interpreter/__init__.py:1467
+  ⟨814, 834, 1477, 3, [737], true, true, [432], false⟩,  -- 168 Interpreter/__init__.py:1477
+  ⟨814, 834, 1479, 3, [542], true, true, [540, 62], false⟩,  -- 169 Interpreter/__init__.py:1479
+  ⟨814, 834, 1487, 3, [542], true, true, [540, 62], false⟩,  -- 170 Interpreter/__init__.py:1487
+  ⟨814, 834, 1491, 3, [569], true, true, [164], false⟩,  -- 171 Interpreter/__init__.py:1491
+  ⟨814, 834, 1504, 3, [567], true, true, [345, 164, 565], false⟩,  -- 172 Interpreter/__init__.py:1504
+  ⟨814, 834, 1521, 3, [583], true, true, [164, 581, 158, 159], false⟩,  -- 173 Interpreter/__init__.py:1521
+  ⟨814, 834, 1532, 3, [583], true, true, [164, 581, 158, 159], false⟩,  -- 174 Interpreter/__init__.py:1532
+  ⟨814, 834, 1549, 3, [583], true, true, [164, 581, 158, 159], false⟩,  -- 175 Interpreter/__init__.py:1549
+  ⟨814, 834, 1558, 3, [726], true, true, [164, 725, 472, 722], false⟩,  -- 176 Interpreter/__init__.py:1558
+  ⟨814, 834, 1596, 3, [583], true, true, [164, 581, 158, 159], false⟩,  -- 177 Interpreter/__init__.py:1596
+  ⟨814, 835, 1640, 3, [624], true, true, [], false⟩,  -- 178 Interpreter/__init__.py:1640
+  ⟨814, 835, 1642, 3, [624], true, true, [], false⟩,  -- 179 Interpreter/__init__.py:1642
+  ⟨836, 837, 53, 1, [63], true, true, [29, 62, 60, 44], false⟩,  -- 180 Model/__init__.py:53
+  ⟨836, 838, 279, 3, [42], true, true, [38, 40], false⟩,  -- 181 Model/__init__.py:279
+  ⟨836, 839, 452, 1, [63], true, true, [29, 62, 60, 44], false⟩,  -- 182 Model/__init__.py:452
+  ⟨840, 841, 51, 3, [175], true, true, [29, 164], false⟩,  -- 183 Operators/Aggregation.py:51
+  ⟨840, 841, 55, 3, [180], true, true, [108, 80, 164], false⟩,  -- 184 Operators/Aggregation.py:55
+  ⟨840, 841, 62, 3, [209], true, true, [206, 208, 164], false⟩,  -- 185 Operators/Aggregation.py:62
+  ⟨840, 841, 88, 3, [529], true, true, [527, 164], false⟩,  -- 186 Operators/Aggregation.py:88
+  ⟨842, 843, 80, 3, [180], true, true, [108, 80, 164], false⟩,  -- 187 Operators/Analytic.py:80
+  ⟨842, 843, 87, 3, [216], true, true, [206, 208, 164], false⟩,  -- 188 Operators/Analytic.py:87
+  ⟨842, 843, 95, 3, [180], true, true, [108, 80, 164], false⟩,  -- 189 Operators/Analytic.py:95
+  ⟨842, 843, 103, 3, [529], true, true, [527, 164], false⟩,  -- 190 Operators/Analytic.py:103
+  ⟨842, 843, 115, 3, [532], true, true, [108, 496, 164], false⟩,  -- 191 Operators/Analytic.py:115
+  ⟨842, 843, 125, 3, [529], true, true, [527, 164], false⟩,  -- 192 Operators/Analytic.py:125
+  ⟨842, 843, 134, 3, [529], true, true, [527, 164], false⟩,  -- 193 Operators/Analytic.py:134
+  ⟨842, 843, 169, 3, [175], true, true, [29, 164], false⟩,  -- 194 Operators/Analytic.py:169
+  ⟨844, 845, 17, 3, [272], true, true, [108, 164], false⟩,  -- 195 Operators/Assignment.py:17
+  ⟨846, 847, 50, 3, [228], true, true, [164, 158, 159], false⟩,  -- 196 Operators/CastOperator.py:50
+  ⟨848, 849, 32, 3, [272], true, true, [108, 164], false⟩,  -- 197 Operators/Clause.py:32
+  ⟨848, 850, 70, 3, [272], true, true, [108, 164], false⟩,  -- 198 Operators/Clause.py:70
+  ⟨848, 851, 114, 3, [180], true, true, [108, 80, 164], false⟩  -- 199 Operators/Clause.py:114
 ]
 def raiseSites4 : List Site := [
-  ⟨841, 844, 118, 3, [243], true, true, [1, 29, 164], false⟩,  -- 200 Operators/Clause.py:118
-  ⟨841, 845, 138, 3, [180], true, true, [108, 80], false⟩,  -- 201 Operators/Clause.py:138
-  ⟨841, 845, 140, 3, [243], true, true, [1, 29, 164], false⟩,  -- 202 Operators/Clause.py:140
-  ⟨841, 845, 142, 3, [267], true, true, [164], false⟩,  -- 203 Operators/Clause.py:142
-  ⟨841, 846, 158, 3, [259], true, true, [258, 164], false⟩,  -- 204 Operators/Clause.py:158
-  ⟨841, 846, 163, 3, [531], true, true, [529], false⟩,  -- 205 Operators/Clause.py:163
-  ⟨841, 846, 168, 3, [180], true, true, [108, 80, 164], false⟩,  -- 206 Operators/Clause.py:168
-  ⟨841, 846, 175, 3, [256], true, true, [108, 80, 164], false⟩,  -- 207 Operators/Clause.py:175
-  ⟨841, 847, 215, 3, [558], true, true, [164], false⟩,  -- 208 Operators/Clause.py:215
-  ⟨841, 847, 217, 3, [243], true, true, [1, 29, 164], false⟩,  -- 209 Operators/Clause.py:217
-  ⟨841, 847, 222, 3, [271], true, true, [1, 29, 164], false⟩,  -- 210 Operators/Clause.py:222
-  ⟨841, 848, 256, 3, [558], true, true, [164], false⟩,  -- 211 Operators/Clause.py:256
-  ⟨841, 848, 260, 3, [183], true, true, [80, 164], false⟩,  -- 212 Operators/Clause.py:260
-  ⟨841, 848, 265, 3, [180], true, true, [108, 80, 164], false⟩,  -- 213 Operators/Clause.py:265
-  ⟨841, 848, 272, 3, [262], true, true, [80, 164, 260], false⟩,  -- 214 Operators/Clause.py:272
-  ⟨841, 848, 279, 3, [248], true, true, [29, 164], false⟩,  -- 215 Operators/Clause.py:279
-  ⟨849, 850, 167, 3, [170], true, true, [164], false⟩,  -- 216 Operators/Comparison.py:167
-  ⟨849, 851, 181, 3, [175], true, true, [29, 164], false⟩,  -- 217 Operators/Comparison.py:181
-  ⟨849, 852, 244, 3, [571], true, true, [415, 273, 164, 416, 277], false⟩,  -- 218 Operators/Comparison.py:244
-  ⟨853, 854, 40, 3, [305], true, true, [164, 114], false⟩,  -- 219 Operators/Conditional.py:40
-  ⟨853, 854, 61, 3, [310], true, true, [308, 164, 307], false⟩,  -- 220 Operators/Conditional.py:61
-  ⟨853, 854, 65, 3, [310], true, true, [308, 164, 307], false⟩,  -- 221 Operators/Conditional.py:65
-  ⟨853, 854, 74, 3, [302], true, true, [295, 164], false⟩,  -- 222 Operators/Conditional.py:74
-  ⟨853, 854, 83, 3, [302], true, true, [295, 164], false⟩,  -- 223 Operators/Conditional.py:83
-  ⟨853, 854, 85, 3, [316], true, true, [314, 164, 312], false⟩,  -- 224 Operators/Conditional.py:85
-  ⟨853, 854, 96, 3, [290], true, true, [29, 164], false⟩,  -- 225 Operators/Conditional.py:96
-  ⟨853, 854, 98, 3, [292], true, true, [164, 114], false⟩,  -- 226 Operators/Conditional.py:98
-  ⟨853, 854, 104, 3, [294], true, true, [164], false⟩,  -- 227 Operators/Conditional.py:104
-  ⟨853, 855, 180, 3, [318], true, true, [164], false⟩,  -- 228 Operators/Conditional.py:180
-  ⟨853, 855, 189, 3, [321], true, true, [29, 164], false⟩,  -- 229 Operators/Conditional.py:189
-  ⟨853, 855, 191, 3, [323], true, true, [164], false⟩,  -- 230 Operators/Conditional.py:191
-  ⟨853, 855, 211, 3, [325], true, true, [29, 164], false⟩,  -- 231 Operators/Conditional.py:211
-  ⟨853, 855, 233, 3, [170], true, true, [164], false⟩,  -- 232 Operators/Conditional.py:233
-  ⟨853, 855, 235, 3, [328], true, true, [29, 164], false⟩,  -- 233 Operators/Conditional.py:235
-  ⟨853, 855, 238, 3, [330], true, true, [164], false⟩,  -- 234 Operators/Conditional.py:238
-  ⟨853, 855, 244, 3, [332], true, true, [164], false⟩,  -- 235 Operators/Conditional.py:244
-  ⟨856, 857, 27, 3, [180], true, true, [108, 80, 164], false⟩,  -- 236 Operators/General.py:27
-  ⟨856, 858, 70, 3, [859], true, true, [529], false⟩,  -- 237 Operators/General.py:70
-  ⟨856, 860, 100, 3, [202], true, true, [201], false⟩,  -- 238 Operators/General.py:100
-  ⟨856, 860, 102, 3, [204], true, true, [], false⟩,  -- 239 Operators/General.py:102
-  ⟨856, 860, 124, 2, [215], true, true, [91, 164], false⟩,  -- 240 Operators/General.py:124
-  ⟨856, 860, 128, 2, [215], true, true, [91, 164], false⟩,  -- 241 Operators/General.py:128
-  ⟨856, 861, 151, 3, [180], true, true, [108, 80, 164], false⟩,  -- 242 Operators/General.py:151
-  ⟨862, 863, 130, 3, [390], true, true, [108], false⟩,  -- 243 Operators/Join.py:130
-  ⟨862, 864, 171, 3, [180], true, true, [108, 80], false⟩,  -- 244 Operators/Join.py:171
-  ⟨862, 865, 186, 3, [392], true, true, [], false⟩,  -- 245 Operators/Join.py:186
-  ⟨862, 865, 191, 3, [558], true, true, [164], false⟩,  -- 246 Operators/Join.py:191
-  ⟨862, 865, 200, 3, [390], true, true, [108], false⟩,  -- 247 Operators/Join.py:200
-  ⟨862, 866, 220, 3, [413], true, true, [206, 164, 158, 159], false⟩,  -- 248 Operators/Join.py:220
-  ⟨862, 867, 234, 3, [404], true, true, [29, 164], false⟩  -- 249 Operators/Join.py:234
+  ⟨848, 851, 118, 3, [246], true, true, [1, 29, 164], false⟩,  -- 200 Operators/Clause.py:118
+  ⟨848, 852, 138, 3, [180], true, true, [108, 80], false⟩,  -- 201 Operators/Clause.py:138
+  ⟨848, 852, 140, 3, [246], true, true, [1, 29, 164], false⟩,  -- 202 Operators/Clause.py:140
+  ⟨848, 852, 142, 3, [270], true, true, [164], false⟩,  -- 203 Operators/Clause.py:142
+  ⟨848, 853, 158, 3, [262], true, true, [261, 164], false⟩,  -- 204 Operators/Clause.py:158
+  ⟨848, 853, 163, 3, [536], true, true, [534], false⟩,  -- 205 Operators/Clause.py:163
+  ⟨848, 853, 168, 3, [180], true, true, [108, 80, 164], false⟩,  -- 206 Operators/Clause.py:168
+  ⟨848, 853, 175, 3, [259], true, true, [108, 80, 164], false⟩,  -- 207 Operators/Clause.py:175
+  ⟨848, 854, 215, 3, [563], true, true, [164], false⟩,  -- 208 Operators/Clause.py:215
+  ⟨848, 854, 217, 3, [246], true, true, [1, 29, 164], false⟩,  -- 209 Operators/Clause.py:217
+  ⟨848, 854, 222, 3, [274], true, true, [1, 29, 164], false⟩,  -- 210 Operators/Clause.py:222
+  ⟨848, 855, 256, 3, [563], true, true, [164], false⟩,  -- 211 Operators/Clause.py:256
+  ⟨848, 855, 260, 3, [183], true, true, [80, 164], false⟩,  -- 212 Operators/Clause.py:260
+  ⟨848, 855, 265, 3, [180], true, true, [108, 80, 164], false⟩,  -- 213 Operators/Clause.py:265
+  ⟨848, 855, 272, 3, [265], true, true, [80, 164, 263], false⟩,  -- 214 Operators/Clause.py:272
+  ⟨848, 855, 279, 3, [251], true, true, [29, 164], false⟩,  -- 215 Operators/Clause.py:279
+  ⟨856, 857, 167, 3, [170], true, true, [164], false⟩,  -- 216 Operators/Comparison.py:167
+  ⟨856, 858, 181, 3, [175], true, true, [29, 164], false⟩,  -- 217 Operators/Comparison.py:181
+  ⟨856, 859, 244, 3, [576], true, true, [418, 276, 164, 419, 280], false⟩,  -- 218 Operators/Comparison.py:244
+  ⟨860, 861, 40, 3, [308], true, true, [29, 164, 114], false⟩,  -- 219 Operators/Conditional.py:40
+  ⟨860, 861, 62, 3, [313], true, true, [311, 164, 310], false⟩,  -- 220 Operators/Conditional.py:62
+  ⟨860, 861, 66, 3, [313], true, true, [311, 164, 310], false⟩,  -- 221 Operators/Conditional.py:66
+  ⟨860, 861, 75, 3, [305], true, true, [298, 164], false⟩,  -- 222 Operators/Conditional.py:75
+  ⟨860, 861, 84, 3, [305], true, true, [298, 164], false⟩,  -- 223 Operators/Conditional.py:84
+  ⟨860, 861, 86, 3, [319], true, true, [317, 164, 315], false⟩,  -- 224 Operators/Conditional.py:86
+  ⟨860, 861, 97, 3, [293], true, true, [29, 164], false⟩,  -- 225 Operators/Conditional.py:97
+  ⟨860, 861, 99, 3, [295], true, true, [164, 114], false⟩,  -- 226 Operators/Conditional.py:99
+  ⟨860, 861, 105, 3, [297], true, true, [164], false⟩,  -- 227 Operators/Conditional.py:105
+  ⟨860, 862, 181, 3, [321], true, true, [164], false⟩,  -- 228 Operators/Conditional.py:181
+  ⟨860, 862, 190, 3, [324], true, true, [29, 164], false⟩,  -- 229 Operators/Conditional.py:190
+  ⟨860, 862, 192, 3, [326], true, true, [164], false⟩,  -- 230 Operators/Conditional.py:192
+  ⟨860, 862, 212, 3, [328], true, true, [29, 164], false⟩,  -- 231 Operators/Conditional.py:212
+  ⟨860, 862, 234, 3, [170], true, true, [164], false⟩,  -- 232 Operators/Conditional.py:234
+  ⟨860, 862, 236, 3, [331], true, true, [29, 164], false⟩,  -- 233 Operators/Conditional.py:236
+  ⟨860, 862, 239, 3, [333], true, true, [164], false⟩,  -- 234 Operators/Conditional.py:239
+  ⟨860, 862, 245, 3, [335], true, true, [164], false⟩,  -- 235 Operators/Conditional.py:245
+  ⟨863, 864, 27, 3, [180], true, true, [108, 80, 164], false⟩,  -- 236 Operators/General.py:27
+  ⟨863, 865, 70, 3, [579], true, true, [534], false⟩,  -- 237 Operators/General.py:70
+  ⟨863, 866, 100, 3, [202], true, true, [201], false⟩,  -- 238 Operators/General.py:100
+  ⟨863, 866, 102, 3, [204], true, true, [], false⟩,  -- 239 Operators/General.py:102
+  ⟨863, 866, 124, 2, [218], true, true, [91, 164], false⟩,  -- 240 Operators/General.py:124
+  ⟨863, 866, 128, 2, [218], true, true, [91, 164], false⟩,  -- 241 Operators/General.py:128
+  ⟨863, 867, 151, 3, [180], true, true, [108, 80, 164], false⟩,  -- 242 Operators/General.py:151
+  ⟨868, 869, 130, 3, [393], true, true, [108], false⟩,  -- 243 Operators/Join.py:130
+  ⟨868, 870, 171, 3, [180], true, true, [108, 80], false⟩,  -- 244 Operators/Join.py:171
+  ⟨868, 871, 186, 3, [395], true, true, [], false⟩,  -- 245 Operators/Join.py:186
+  ⟨868, 871, 191, 3, [563], true, true, [164], false⟩,  -- 246 Operators/Join.py:191
+  ⟨868, 871, 200, 3, [393], true, true, [108], false⟩,  -- 247 Operators/Join.py:200
+  ⟨868, 872, 220, 3, [416], true, true, [206, 164, 158, 159], false⟩,  -- 248 Operators/Join.py:220
+  ⟨868, 873, 234, 3, [407], true, true, [29, 164], false⟩  -- 249 Operators/Join.py:234
 ]
 def raiseSites5 : List Site := [
-  ⟨862, 867, 243, 3, [398], true, true, [396, 394, 164], false⟩,  -- 250 Operators/Join.py:243
-  ⟨862, 867, 259, 3, [377], true, true, [1, 164, 375], false⟩,  -- 251 Operators/Join.py:259
-  ⟨862, 867, 262, 3, [384], true, true, [164, 383, 381], false⟩,  -- 252 Operators/Join.py:262
-  ⟨862, 867, 273, 3, [379], true, true, [164, 375], false⟩,  -- 253 Operators/Join.py:273
-  ⟨862, 867, 279, 3, [180], true, true, [108, 80, 164], false⟩,  -- 254 Operators/Join.py:279
-  ⟨862, 868, 323, 3, [388], true, true, [164], false⟩,  -- 255 Operators/Join.py:323
-  ⟨862, 868, 330, 3, [402], true, true, [164], false⟩,  -- 256 Operators/Join.py:330
-  ⟨862, 868, 332, 3, [400], true, true, [164], false⟩,  -- 257 Operators/Join.py:332
-  ⟨862, 869, 344, 3, [388], true, true, [164], false⟩,  -- 258 Operators/Join.py:344
-  ⟨870, 871, 207, 3, [438], true, true, [429, 164], false⟩,  -- 259 Operators/Numeric.py:207
-  ⟨870, 871, 210, 3, [438], true, true, [429, 164], false⟩,  -- 260 Operators/Numeric.py:210
-  ⟨870, 872, 252, 3, [444], true, true, [164, 44], false⟩,  -- 261 Operators/Numeric.py:252
-  ⟨873, 874, 36, 3, [197], true, true, [], false⟩,  -- 262 Operators/RoleSetter.py:36
-  ⟨875, 876, 13, 3, [461], true, true, [458, 459, 164], false⟩,  -- 263 Operators/Set.py:13
-  ⟨877, 878, 40, 3, [463], true, true, [29, 164], false⟩,  -- 264 Operators/String.py:40
-  ⟨877, 879, 124, 3, [479], true, true, [342, 476, 164], false⟩,  -- 265 Operators/String.py:124
-  ⟨877, 880, 131, 3, [468], true, true, [164, 467], false⟩,  -- 266 Operators/String.py:131
-  ⟨877, 880, 135, 3, [472], true, true, [471, 164, 469], false⟩,  -- 267 Operators/String.py:135
-  ⟨877, 881, 145, 3, [472], true, true, [471, 164, 469], false⟩,  -- 268 Operators/String.py:145
-  ⟨877, 881, 147, 3, [472], true, true, [471, 164, 469], false⟩,  -- 269 Operators/String.py:147
-  ⟨877, 882, 159, 3, [468], true, true, [164, 467], false⟩,  -- 270 Operators/String.py:159
-  ⟨877, 882, 163, 3, [472], true, true, [471, 164, 469], false⟩,  -- 271 Operators/String.py:163
-  ⟨877, 883, 168, 3, [479], true, true, [342, 476, 164], false⟩,  -- 272 Operators/String.py:168
-  ⟨877, 884, 243, 3, [489], true, true, [487, 488, 164], false⟩,  -- 273 Operators/String.py:243
-  ⟨877, 885, 319, 3, [485], true, true, [164], false⟩,  -- 274 Operators/String.py:319
-  ⟨877, 886, 332, 3, [479], true, true, [342, 476, 164], false⟩,  -- 275 Operators/String.py:332
-  ⟨877, 887, 339, 3, [888], true, true, [164], false⟩,  -- 276 Operators/String.py:339
-  ⟨877, 887, 344, 3, [472], true, true, [471, 164, 469], false⟩,  -- 277 Operators/String.py:344
-  ⟨877, 887, 349, 3, [472], true, true, [471, 164, 469], false⟩,  -- 278 Operators/String.py:349
-  ⟨877, 887, 354, 3, [472], true, true, [471, 164, 469], false⟩,  -- 279 Operators/String.py:354
-  ⟨877, 889, 367, 3, [472], true, true, [471, 164, 469], false⟩,  -- 280 Operators/String.py:367
-  ⟨877, 889, 369, 3, [472], true, true, [471, 164, 469], false⟩,  -- 281 Operators/String.py:369
-  ⟨890, 891, 63, 3, [514], true, true, [429, 164], false⟩,  -- 282 Operators/Time.py:63
-  ⟨890, 891, 67, 3, [514], true, true, [429, 164], false⟩,  -- 283 Operators/Time.py:67
-  ⟨890, 891, 70, 3, [494], true, true, [493, 491, 164], false⟩,  -- 284 Operators/Time.py:70
-  ⟨890, 892, 129, 3, [514], true, true, [429, 164], false⟩,  -- 285 Operators/Time.py:129
-  ⟨890, 892, 131, 3, [514], true, true, [429, 164], false⟩,  -- 286 Operators/Time.py:131
-  ⟨890, 893, 152, 3, [514], true, true, [429, 164], false⟩,  -- 287 Operators/Time.py:152
-  ⟨890, 893, 167, 3, [514], true, true, [429, 164], false⟩,  -- 288 Operators/Time.py:167
-  ⟨890, 894, 196, 3, [514], true, true, [429, 164], false⟩,  -- 289 Operators/Time.py:196
-  ⟨890, 894, 201, 3, [514], true, true, [429, 164], false⟩,  -- 290 Operators/Time.py:201
-  ⟨890, 895, 214, 3, [514], true, true, [429, 164], false⟩,  -- 291 Operators/Time.py:214
-  ⟨890, 896, 232, 3, [507], true, true, [164], false⟩,  -- 292 Operators/Time.py:232
-  ⟨890, 896, 234, 3, [510], true, true, [493, 164], false⟩,  -- 293 Operators/Time.py:234
-  ⟨890, 896, 236, 3, [520], true, true, [], false⟩,  -- 294 Operators/Time.py:236
-  ⟨890, 897, 251, 3, [500], true, true, [164, 498], false⟩,  -- 295 Operators/Time.py:251
-  ⟨890, 898, 260, 3, [505], true, true, [164, 502, 503], false⟩,  -- 296 Operators/Time.py:260
-  ⟨890, 899, 273, 3, [507], true, true, [164], false⟩,  -- 297 Operators/Time.py:273
-  ⟨890, 899, 275, 3, [510], true, true, [493, 164], false⟩,  -- 298 Operators/Time.py:275
-  ⟨890, 899, 277, 3, [520], true, true, [], false⟩  -- 299 Operators/Time.py:277
+  ⟨868, 873, 243, 3, [401], true, true, [399, 397, 164], false⟩,  -- 250 Operators/Join.py:243
+  ⟨868, 873, 259, 3, [380], true, true, [1, 164, 378], false⟩,  -- 251 Operators/Join.py:259
+  ⟨868, 873, 262, 3, [387], true, true, [164, 386, 384], false⟩,  -- 252 Operators/Join.py:262
+  ⟨868, 873, 273, 3, [382], true, true, [164, 378], false⟩,  -- 253 Operators/Join.py:273
+  ⟨868, 873, 279, 3, [180], true, true, [108, 80, 164], false⟩,  -- 254 Operators/Join.py:279
+  ⟨868, 874, 323, 3, [391], true, true, [164], false⟩,  -- 255 Operators/Join.py:323
+  ⟨868, 874, 330, 3, [405], true, true, [164], false⟩,  -- 256 Operators/Join.py:330
+  ⟨868, 874, 332, 3, [403], true, true, [164], false⟩,  -- 257 Operators/Join.py:332
+  ⟨868, 875, 344, 3, [391], true, true, [164], false⟩,  -- 258 Operators/Join.py:344
+  ⟨876, 877, 207, 3, [441], true, true, [432, 164], false⟩,  -- 259 Operators/Numeric.py:207
+  ⟨876, 877, 210, 3, [441], true, true, [432, 164], false⟩,  -- 260 Operators/Numeric.py:210
+  ⟨876, 878, 252, 3, [447], true, true, [164, 44], false⟩,  -- 261 Operators/Numeric.py:252
+  ⟨879, 880, 36, 3, [197], true, true, [], false⟩,  -- 262 Operators/RoleSetter.py:36
+  ⟨881, 882, 13, 3, [464], true, true, [461, 462, 164], false⟩,  -- 263 Operators/Set.py:13
+  ⟨883, 884, 40, 3, [466], true, true, [29, 164], false⟩,  -- 264 Operators/String.py:40
+  ⟨883, 885, 124, 3, [482], true, true, [345, 479, 164], false⟩,  -- 265 Operators/String.py:124
+  ⟨883, 886, 131, 3, [471], true, true, [164, 470], false⟩,  -- 266 Operators/String.py:131
+  ⟨883, 886, 135, 3, [475], true, true, [474, 164, 472], false⟩,  -- 267 Operators/String.py:135
+  ⟨883, 887, 145, 3, [475], true, true, [474, 164, 472], false⟩,  -- 268 Operators/String.py:145
+  ⟨883, 887, 147, 3, [475], true, true, [474, 164, 472], false⟩,  -- 269 Operators/String.py:147
+  ⟨883, 888, 159, 3, [471], true, true, [164, 470], false⟩,  -- 270 Operators/String.py:159
+  ⟨883, 888, 163, 3, [475], true, true, [474, 164, 472], false⟩,  -- 271 Operators/String.py:163
+  ⟨883, 889, 168, 3, [482], true, true, [345, 479, 164], false⟩,  -- 272 Operators/String.py:168
+  ⟨883, 890, 243, 3, [494], true, true, [492, 493, 164], false⟩,  -- 273 Operators/String.py:243
+  ⟨883, 891, 319, 3, [490], true, true, [164], false⟩,  -- 274 Operators/String.py:319
+  ⟨883, 892, 332, 3, [482], true, true, [345, 479, 164], false⟩,  -- 275 Operators/String.py:332
+  ⟨883, 893, 339, 3, [488], true, true, [164], false⟩,  -- 276 Operators/String.py:339
+  ⟨883, 893, 344, 3, [475], true, true, [474, 164, 472], false⟩,  -- 277 Operators/String.py:344
+  ⟨883, 893, 349, 3, [475], true, true, [474, 164, 472], false⟩,  -- 278 Operators/String.py:349
+  ⟨883, 893, 354, 3, [475], true, true, [474, 164, 472], false⟩,  -- 279 Operators/String.py:354
+  ⟨883, 894, 367, 3, [475], true, true, [474, 164, 472], false⟩,  -- 280 Operators/String.py:367
+  ⟨883, 894, 369, 3, [475], true, true, [474, 164, 472], false⟩,  -- 281 Operators/String.py:369
+  ⟨895, 896, 63, 3, [519], true, true, [432, 164], false⟩,  -- 282 Operators/Time.py:63
+  ⟨895, 896, 67, 3, [519], true, true, [432, 164], false⟩,  -- 283 Operators/Time.py:67
+  ⟨895, 896, 70, 3, [499], true, true, [498, 496, 164], false⟩,  -- 284 Operators/Time.py:70
+  ⟨895, 897, 129, 3, [519], true, true, [432, 164], false⟩,  -- 285 Operators/Time.py:129
+  ⟨895, 897, 131, 3, [519], true, true, [432, 164], false⟩,  -- 286 Operators/Time.py:131
+  ⟨895, 898, 152, 3, [519], true, true, [432, 164], false⟩,  -- 287 Operators/Time.py:152
+  ⟨895, 898, 167, 3, [519], true, true, [432, 164], false⟩,  -- 288 Operators/Time.py:167
+  ⟨895, 899, 196, 3, [519], true, true, [432, 164], false⟩,  -- 289 Operators/Time.py:196
+  ⟨895, 899, 201, 3, [519], true, true, [432, 164], false⟩,  -- 290 Operators/Time.py:201
+  ⟨895, 900, 214, 3, [519], true, true, [432, 164], false⟩,  -- 291 Operators/Time.py:214
+  ⟨895, 901, 232, 3, [512], true, true, [164], false⟩,  -- 292 Operators/Time.py:232
+  ⟨895, 901, 234, 3, [515], true, true, [498, 164], false⟩,  -- 293 Operators/Time.py:234
+  ⟨895, 901, 236, 3, [525], true, true, [], false⟩,  -- 294 Operators/Time.py:236
+  ⟨895, 902, 251, 3, [505], true, true, [164, 503], false⟩,  -- 295 Operators/Time.py:251
+  ⟨895, 903, 260, 3, [510], true, true, [164, 507, 508], false⟩,  -- 296 Operators/Time.py:260
+  ⟨895, 904, 273, 3, [512], true, true, [164], false⟩,  -- 297 Operators/Time.py:273
+  ⟨895, 904, 275, 3, [515], true, true, [498, 164], false⟩,  -- 298 Operators/Time.py:275
+  ⟨895, 904, 277, 3, [525], true, true, [], false⟩  -- 299 Operators/Time.py:277
 ]
 def raiseSites6 : List Site := [
-  ⟨890, 899, 280, 3, [516], true, true, [429, 164, 498], false⟩,  -- 300 Operators/Time.py:280
-  ⟨890, 900, 301, 3, [514], true, true, [429, 164], false⟩,  -- 301 Operators/Time.py:301
-  ⟨890, 900, 303, 3, [507], true, true, [164], false⟩,  -- 302 Operators/Time.py:303
-  ⟨890, 900, 305, 3, [510], true, true, [493, 164], false⟩,  -- 303 Operators/Time.py:305
-  ⟨890, 900, 307, 3, [520], true, true, [], false⟩,  -- 304 Operators/Time.py:307
-  ⟨890, 901, 318, 3, [514], true, true, [429, 164], false⟩,  -- 305 Operators/Time.py:318
-  ⟨890, 901, 320, 3, [507], true, true, [164], false⟩,  -- 306 Operators/Time.py:320
-  ⟨890, 901, 322, 3, [510], true, true, [493, 164], false⟩,  -- 307 Operators/Time.py:322
-  ⟨890, 901, 324, 3, [520], true, true, [], false⟩,  -- 308 Operators/Time.py:324
-  ⟨890, 902, 371, 3, [514], true, true, [429, 164], false⟩,  -- 309 Operators/Time.py:371
-  ⟨890, 902, 373, 3, [162], true, true, [158, 159, 161], false⟩,  -- 310 Operators/Time.py:373
-  ⟨890, 903, 406, 3, [686, 688], false, true, [342, 29, 164, 114], false⟩,  -- 311 Operators/Time.py:406
-  ⟨890, 903, 433, 3, [690], true, true, [29, 164], false⟩,  -- 312 Operators/Time.py:433
-  ⟨890, 904, 443, 3, [514], true, true, [429, 164], false⟩,  -- 313 Operators/Time.py:443
-  ⟨890, 904, 451, 3, [518], true, true, [164], false⟩,  -- 314 Operators/Time.py:451
-  ⟨890, 905, 494, 2, [710], true, true, [342, 164, 44], false⟩,  -- 315 Operators/Time.py:494
-  ⟨890, 906, 506, 2, [710], true, true, [342, 164, 44], false⟩,  -- 316 Operators/Time.py:506
-  ⟨907, 908, 34, 3, [336], true, true, [335, 164, 62], false⟩,  -- 317 Operators/Validation.py:34
-  ⟨907, 908, 37, 3, [336], true, true, [335, 164, 62], false⟩,  -- 318 Operators/Validation.py:37
-  ⟨907, 908, 57, 3, [336], true, true, [335, 164, 62], false⟩,  -- 319 Operators/Validation.py:57
-  ⟨907, 908, 61, 3, [336], true, true, [335, 164, 62], false⟩,  -- 320 Operators/Validation.py:61
-  ⟨907, 909, 188, 3, [336], true, true, [335, 164, 62], false⟩,  -- 321 Operators/Validation.py:188
-  ⟨907, 909, 193, 3, [336], true, true, [335, 164, 62], false⟩,  -- 322 Operators/Validation.py:193
-  ⟨907, 909, 197, 3, [180], true, true, [108, 80, 164], false⟩,  -- 323 Operators/Validation.py:197
-  ⟨907, 909, 204, 3, [550], true, true, [29, 549], false⟩,  -- 324 Operators/Validation.py:204
-  ⟨910, 911, 129, 3, [417], true, true, [415, 164, 416], false⟩,  -- 325 Operators/__init__.py:129
-  ⟨910, 911, 136, 3, [175], true, true, [29, 164], false⟩,  -- 326 Operators/__init__.py:136
-  ⟨910, 911, 149, 3, [558], true, true, [164], false⟩,  -- 327 Operators/__init__.py:149
-  ⟨910, 911, 151, 3, [571], true, true, [415, 273, 164, 416, 277], false⟩,  -- 328 Operators/__init__.py:151
-  ⟨910, 912, 188, 3, [175], true, true, [29, 164], false⟩,  -- 329 Operators/__init__.py:188
-  ⟨910, 913, 202, 3, [162], true, true, [158, 159, 161], false⟩,  -- 330 Operators/__init__.py:202
-  ⟨910, 914, 253, 3, [175], true, true, [29, 164], false⟩,  -- 331 Operators/__init__.py:253
-  ⟨910, 915, 356, 3, [170], true, true, [164], false⟩,  -- 332 Operators/__init__.py:356
-  ⟨910, 916, 382, 3, [175], true, true, [29, 164], false⟩,  -- 333 Operators/__init__.py:382
-  ⟨910, 917, 427, 3, [168], true, true, [165, 29, 164, 167], false⟩,  -- 334 Operators/__init__.py:427
-  ⟨910, 918, 438, 3, [172], true, true, [29, 164, 114], false⟩,  -- 335 Operators/__init__.py:438
-  ⟨910, 919, 467, 3, [170], true, true, [164], false⟩,  -- 336 Operators/__init__.py:467
-  ⟨920, 921, 51, 2, [156], true, true, [154, 148, 152, 151, 44], false⟩,  -- 337 Utils/_number_config.py:51
-  ⟨920, 921, 64, 2, [156], true, true, [154, 148, 152, 151, 44], false⟩,  -- 338 Utils/_number_config.py:64
-  ⟨922, 923, 100, 2, [156], true, true, [154, 148, 152, 151, 44], false⟩,  -- 339 duckdb_transpiler/Config/config.py:100
-  ⟨922, 923, 110, 2, [156], true, true, [154, 148, 152, 151, 44], false⟩,  -- 340 duckdb_transpiler/Config/config.py:110
-  ⟨924, 925, 732, 2, [696], true, true, [164], false⟩,  -- 341 duckdb_transpiler/Transpiler/__init__.py:732
-  ⟨924, 926, 1618, 3, [444], true, true, [164, 44], false⟩,  -- 342 duckdb_transpiler/Transpiler/__init__.py:1618
-  ⟨924, 927, 3660, 3, [180], true, true, [108, 80, 164], false⟩,  -- 343 duckdb_transpiler/Transpiler/__init__.py:3660
-  ⟨924, 928, 3849, 3, [616], true, true, [], false⟩,  -- 344 duckdb_transpiler/Transpiler/__init__.py:3849
-  ⟨929, 930, 140, 3, [472], true, true, [471, 164, 469], false⟩,  -- 345 duckdb_transpiler/Transpiler/operators.py:140
-  ⟨931, 932, 62, 2, [645], true, true, [643, 44], false⟩,  -- 346 duckdb_transpiler/io/_execution.py:62
-  ⟨931, 933, 79, 2, [704], true, true, [164], false⟩,  -- 347 duckdb_transpiler/io/_execution.py:79
-  ⟨931, 933, 87, 2, [702], true, true, [164, 700, 701], false⟩,  -- 348 duckdb_transpiler/io/_execution.py:87
-  ⟨931, 933, 94, 2, [694], true, true, [164], false⟩  -- 349 duckdb_transpiler/io/_execution.py:94
+  ⟨895, 904, 280, 3, [521], true, true, [432, 164, 503], false⟩,  -- 300 Operators/Time.py:280
+  ⟨895, 905, 301, 3, [519], true, true, [432, 164], false⟩,  -- 301 Operators/Time.py:301
+  ⟨895, 905, 303, 3, [512], true, true, [164], false⟩,  -- 302 Operators/Time.py:303
+  ⟨895, 905, 305, 3, [515], true, true, [498, 164], false⟩,  -- 303 Operators/Time.py:305
+  ⟨895, 905, 307, 3, [525], true, true, [], false⟩,  -- 304 Operators/Time.py:307
+  ⟨895, 906, 318, 3, [519], true, true, [432, 164], false⟩,  -- 305 Operators/Time.py:318
+  ⟨895, 906, 320, 3, [512], true, true, [164], false⟩,  -- 306 Operators/Time.py:320
+  ⟨895, 906, 322, 3, [515], true, true, [498, 164], false⟩,  -- 307 Operators/Time.py:322
+  ⟨895, 906, 324, 3, [525], true, true, [], false⟩,  -- 308 Operators/Time.py:324
+  ⟨895, 907, 371, 3, [519], true, true, [432, 164], false⟩,  -- 309 Operators/Time.py:371
+  ⟨895, 907, 373, 3, [162], true, true, [158, 159, 161], false⟩,  -- 310 Operators/Time.py:373
+  ⟨895, 908, 406, 3, [694, 696], false, true, [345, 29, 164, 114], false⟩,  -- 311 Operators/Time.py:406
+  ⟨895, 908, 433, 3, [698], true, true, [29, 164], false⟩,  -- 312 Operators/Time.py:433
+  ⟨895, 909, 443, 3, [519], true, true, [432, 164], false⟩,  -- 313 Operators/Time.py:443
+  ⟨895, 909, 451, 3, [523], true, true, [164], false⟩,  -- 314 Operators/Time.py:451
+  ⟨895, 910, 494, 2, [718], true, true, [345, 164, 44], false⟩,  -- 315 Operators/Time.py:494
+  ⟨895, 911, 506, 2, [718], true, true, [345, 164, 44], false⟩,  -- 316 Operators/Time.py:506
+  ⟨912, 913, 34, 3, [339], true, true, [338, 164, 62], false⟩,  -- 317 Operators/Validation.py:34
+  ⟨912, 913, 37, 3, [339], true, true, [338, 164, 62], false⟩,  -- 318 Operators/Validation.py:37
+  ⟨912, 913, 57, 3, [339], true, true, [338, 164, 62], false⟩,  -- 319 Operators/Validation.py:57
+  ⟨912, 913, 61, 3, [339], true, true, [338, 164, 62], false⟩,  -- 320 Operators/Validation.py:61
+  ⟨912, 914, 188, 3, [339], true, true, [338, 164, 62], false⟩,  -- 321 Operators/Validation.py:188
+  ⟨912, 914, 193, 3, [339], true, true, [338, 164, 62], false⟩,  -- 322 Operators/Validation.py:193
+  ⟨912, 914, 197, 3, [180], true, true, [108, 80, 164], false⟩,  -- 323 Operators/Validation.py:197
+  ⟨912, 914, 204, 3, [555], true, true, [29, 554], false⟩,  -- 324 Operators/Validation.py:204
+  ⟨915, 916, 129, 3, [420], true, true, [418, 164, 419], false⟩,  -- 325 Operators/__init__.py:129
+  ⟨915, 916, 136, 3, [175], true, true, [29, 164], false⟩,  -- 326 Operators/__init__.py:136
+  ⟨915, 916, 149, 3, [563], true, true, [164], false⟩,  -- 327 Operators/__init__.py:149
+  ⟨915, 916, 151, 3, [576], true, true, [418, 276, 164, 419, 280], false⟩,  -- 328 Operators/__init__.py:151
+  ⟨915, 917, 188, 3, [175], true, true, [29, 164], false⟩,  -- 329 Operators/__init__.py:188
+  ⟨915, 918, 202, 3, [162], true, true, [158, 159, 161], false⟩,  -- 330 Operators/__init__.py:202
+  ⟨915, 919, 253, 3, [175], true, true, [29, 164], false⟩,  -- 331 Operators/__init__.py:253
+  ⟨915, 920, 356, 3, [170], true, true, [164], false⟩,  -- 332 Operators/__init__.py:356
+  ⟨915, 921, 382, 3, [175], true, true, [29, 164], false⟩,  -- 333 Operators/__init__.py:382
+  ⟨915, 922, 427, 3, [168], true, true, [165, 29, 164, 167], false⟩,  -- 334 Operators/__init__.py:427
+  ⟨915, 923, 438, 3, [172], true, true, [29, 164, 114], false⟩,  -- 335 Operators/__init__.py:438
+  ⟨915, 924, 467, 3, [170], true, true, [164], false⟩,  -- 336 Operators/__init__.py:467
+  ⟨925, 926, 51, 2, [156], true, true, [154, 148, 152, 151, 44], false⟩,  -- 337 Utils/_number_config.py:51
+  ⟨925, 926, 64, 2, [156], true, true, [154, 148, 152, 151, 44], false⟩,  -- 338 Utils/_number_config.py:64
+  ⟨927, 928, 102, 2, [156], true, true, [154, 148, 152, 151, 44], false⟩,  -- 339 duckdb_transpiler/Config/config.py:102
+  ⟨927, 928, 112, 2, [156], true, true, [154, 148, 152, 151, 44], false⟩,  -- 340 duckdb_transpiler/Config/config.py:112
+  ⟨929, 930, 732, 2, [704], true, true, [164], false⟩,  -- 341 duckdb_transpiler/Transpiler/__init__.py:732
+  ⟨929, 931, 1618, 3, [447], true, true, [164, 44], false⟩,  -- 342 duckdb_transpiler/Transpiler/__init__.py:1618
+  ⟨929, 932, 3660, 3, [180], true, true, [108, 80, 164], false⟩,  -- 343 duckdb_transpiler/Transpiler/__init__.py:3660
+  ⟨929, 933, 3849, 3, [624], true, true, [], false⟩,  -- 344 duckdb_transpiler/Transpiler/__init__.py:3849
+  ⟨934, 935, 140, 3, [475], true, true, [474, 164, 472], false⟩,  -- 345 duckdb_transpiler/Transpiler/operators.py:140
+  ⟨936, 937, 62, 2, [653], true, true, [651, 44], false⟩,  -- 346 duckdb_transpiler/io/_execution.py:62
+  ⟨936, 938, 79, 2, [712], true, true, [164], false⟩,  -- 347 duckdb_transpiler/io/_execution.py:79
+  ⟨936, 938, 87, 2, [710], true, true, [164, 708, 709], false⟩,  -- 348 duckdb_transpiler/io/_execution.py:87
+  ⟨936, 938, 94, 2, [702], true, true, [164], false⟩  -- 349 duckdb_transpiler/io/_execution.py:94
 ]
 def raiseSites7 : List Site := [
-  ⟨931, 933, 103, 2, [232], true, true, [158, 159, 44], false⟩,  -- 350 duckdb_transpiler/io/_execution.py:103
-  ⟨931, 933, 108, 2, [232], true, true, [158, 159, 44], false⟩,  -- 351 duckdb_transpiler/io/_execution.py:108
-  ⟨931, 933, 113, 2, [232], true, true, [158, 159, 44], false⟩,  -- 352 duckdb_transpiler/io/_execution.py:113
-  ⟨931, 933, 122, 2, [672], true, true, [657], false⟩,  -- 353 duckdb_transpiler/io/_execution.py:122
-  ⟨931, 933, 126, 2, [453], true, true, [164], false⟩,  -- 354 duckdb_transpiler/io/_execution.py:126
-  ⟨931, 933, 132, 3, [489], true, true, [487, 488, 164], false⟩,  -- 355 duckdb_transpiler/io/_execution.py:132
-  ⟨931, 933, 136, 2, [217], true, true, [164], false⟩,  -- 356 duckdb_transpiler/io/_execution.py:136
-  ⟨931, 933, 138, 2, [217], true, true, [164], false⟩,  -- 357 duckdb_transpiler/io/_execution.py:138
-  ⟨931, 933, 142, 2, [457], true, true, [164, 44], false⟩,  -- 358 duckdb_transpiler/io/_execution.py:142
-  ⟨931, 933, 146, 2, [447], true, true, [164, 44], false⟩,  -- 359 duckdb_transpiler/io/_execution.py:146
-  ⟨934, 935, 72, 0, [106], true, true, [29], false⟩,  -- 360 duckdb_transpiler/io/_io.py:72
-  ⟨934, 936, 104, 0, [117], true, true, [112, 91, 29, 114], false⟩,  -- 361 duckdb_transpiler/io/_io.py:104
-  ⟨934, 937, 254, 1, [54], true, true, [52, 50], false⟩,  -- 362 duckdb_transpiler/io/_io.py:254
-  ⟨934, 938, 345, 1, [54], true, true, [52, 50], false⟩,  -- 363 duckdb_transpiler/io/_io.py:345
-  ⟨934, 939, 403, 1, [49], true, true, [46, 44], false⟩,  -- 364 duckdb_transpiler/io/_io.py:403
-  ⟨940, 941, 93, 0, [144], true, true, [91, 29], false⟩,  -- 365 duckdb_transpiler/io/_validation.py:93
-  ⟨940, 941, 101, 0, [120], true, true, [29, 119], false⟩,  -- 366 duckdb_transpiler/io/_validation.py:101
-  ⟨940, 941, 108, 0, [104], true, true, [29, 103], false⟩,  -- 367 duckdb_transpiler/io/_validation.py:108
-  ⟨940, 941, 110, 0, [104], true, true, [29, 103], false⟩,  -- 368 duckdb_transpiler/io/_validation.py:110
-  ⟨940, 941, 122, 0, [117], true, true, [112, 91, 29, 114], false⟩,  -- 369 duckdb_transpiler/io/_validation.py:122
-  ⟨940, 941, 129, 0, [117], true, true, [112, 91, 29, 114], false⟩,  -- 370 duckdb_transpiler/io/_validation.py:129
-  ⟨940, 941, 147, 0, [117], true, true, [112, 91, 29, 114], false⟩,  -- 371 duckdb_transpiler/io/_validation.py:147
-  ⟨940, 941, 154, 0, [117], true, true, [112, 91, 29, 114], false⟩,  -- 372 duckdb_transpiler/io/_validation.py:154
-  ⟨940, 941, 163, 0, [117], true, true, [112, 91, 29, 114], false⟩,  -- 373 duckdb_transpiler/io/_validation.py:163
-  ⟨940, 942, 282, 0, [120], true, true, [29, 119], false⟩,  -- 374 duckdb_transpiler/io/_validation.py:282
-  ⟨940, 943, 293, 0, [96], true, true, [24], false⟩,  -- 375 duckdb_transpiler/io/_validation.py:293
-  ⟨940, 944, 394, 0, [117], true, true, [112, 91, 29, 114], false⟩,  -- 376 duckdb_transpiler/io/_validation.py:394
-  ⟨940, 945, 480, 0, [110], true, true, [108, 29], false⟩,  -- 377 duckdb_transpiler/io/_validation.py:480
-  ⟨940, 946, 493, 1, [25], true, true, [24, 22], false⟩,  -- 378 duckdb_transpiler/io/_validation.py:493
-  ⟨947, 948, 21, 1, [47], true, true, [46, 44], false⟩,  -- 379 files/output/_time_period_representation.py:21
-  ⟨949, 950, 62, 0, [96], true, true, [24], false⟩,  -- 380 files/parser/__init__.py:62
-  ⟨949, 950, 64, 0, [96], true, true, [24], false⟩,  -- 381 files/parser/__init__.py:64
-  ⟨949, 950, 79, 1, [18], true, true, [24], false⟩,  -- 382 files/parser/__init__.py:79
-  ⟨949, 950, 83, 1, [54], true, true, [52, 50], false⟩,  -- 383 files/parser/__init__.py:83
-  ⟨949, 950, 93, 1, [25], true, true, [24, 22], false⟩,  -- 384 files/parser/__init__.py:93
-  ⟨949, 951, 121, 1, [20], true, true, [24, 22], false⟩,  -- 385 files/parser/__init__.py:121
-  ⟨949, 951, 128, 1, [110], true, true, [108, 29], false⟩,  -- 386 files/parser/__init__.py:128
-  ⟨949, 952, 177, 0, [142], true, true, [141, 29], false⟩,  -- 387 files/parser/__init__.py:177
-  ⟨949, 953, 196, 0, [110], true, true, [108, 29], false⟩,  -- 388 files/parser/__init__.py:196
-  ⟨949, 953, 203, 0, [104], true, true, [29, 103], false⟩,  -- 389 files/parser/__init__.py:203
-  ⟨949, 953, 206, 0, [106], true, true, [29], false⟩,  -- 390 files/parser/__init__.py:206
-  ⟨949, 953, 266, 0, [117], true, true, [112, 91, 29, 114], false⟩,  -- 391 files/parser/__init__.py:266
-  ⟨949, 954, 280, 0, [120], true, true, [29, 119], false⟩,  -- 392 files/parser/__init__.py:280
-  ⟨949, 955, 323, 1, [11], true, true, [9], false⟩,  -- 393 files/parser/__init__.py:323
-  ⟨956, 957, 105, 0, [123], true, true, [91, 24], false⟩,  -- 394 files/sdmx_handler.py:105
-  ⟨956, 957, 112, 0, [126], true, true, [24], false⟩,  -- 395 files/sdmx_handler.py:112
-  ⟨956, 958, 148, 0, [123], true, true, [91, 24], false⟩,  -- 396 files/sdmx_handler.py:148
-  ⟨956, 958, 155, 0, [126], true, true, [24], false⟩,  -- 397 files/sdmx_handler.py:155
-  ⟨956, 959, 215, 1, [20], true, true, [24, 22], false⟩,  -- 398 files/sdmx_handler.py:215
-  ⟨956, 959, 224, 1, [110], true, false, [108, 29], false⟩  -- 399 files/sdmx_handler.py:224
+  ⟨936, 938, 98, 2, [715], true, true, [655], false⟩,  -- 350 duckdb_transpiler/io/_execution.py:98
+  ⟨936, 938, 107, 2, [235], true, true, [158, 159, 44], false⟩,  -- 351 duckdb_transpiler/io/_execution.py:107
+  ⟨936, 938, 112, 2, [235], true, true, [158, 159, 44], false⟩,  -- 352 duckdb_transpiler/io/_execution.py:112
+  ⟨936, 938, 117, 2, [235], true, true, [158, 159, 44], false⟩,  -- 353 duckdb_transpiler/io/_execution.py:117
+  ⟨936, 938, 126, 2, [680], true, true, [665], false⟩,  -- 354 duckdb_transpiler/io/_execution.py:126
+  ⟨936, 938, 130, 2, [456], true, true, [164], false⟩,  -- 355 duckdb_transpiler/io/_execution.py:130
+  ⟨936, 938, 136, 3, [494], true, true, [492, 493, 164], false⟩,  -- 356 duckdb_transpiler/io/_execution.py:136
+  ⟨936, 938, 140, 2, [220], true, true, [164], false⟩,  -- 357 duckdb_transpiler/io/_execution.py:140
+  ⟨936, 938, 142, 2, [220], true, true, [164], false⟩,  -- 358 duckdb_transpiler/io/_execution.py:142
+  ⟨936, 938, 146, 2, [460], true, true, [164, 44], false⟩,  -- 359 duckdb_transpiler/io/_execution.py:146
+  ⟨936, 938, 150, 2, [450], true, true, [164, 44], false⟩,  -- 360 duckdb_transpiler/io/_execution.py:150
+  ⟨939, 940, 72, 0, [106], true, true, [29], false⟩,  -- 361 duckdb_transpiler/io/_io.py:72
+  ⟨939, 941, 104, 0, [117], true, true, [112, 91, 29, 114], false⟩,  -- 362 duckdb_transpiler/io/_io.py:104
+  ⟨939, 942, 254, 1, [54], true, true, [52, 50], false⟩,  -- 363 duckdb_transpiler/io/_io.py:254
+  ⟨939, 943, 345, 1, [54], true, true, [52, 50], false⟩,  -- 364 duckdb_transpiler/io/_io.py:345
+  ⟨939, 944, 403, 1, [49], true, true, [46, 44], false⟩,  -- 365 duckdb_transpiler/io/_io.py:403
+  ⟨945, 946, 93, 0, [144], true, true, [91, 29], false⟩,  -- 366 duckdb_transpiler/io/_validation.py:93
+  ⟨945, 946, 101, 0, [120], true, true, [29, 119], false⟩,  -- 367 duckdb_transpiler/io/_validation.py:101
+  ⟨945, 946, 108, 0, [104], true, true, [29, 103], false⟩,  -- 368 duckdb_transpiler/io/_validation.py:108
+  ⟨945, 946, 110, 0, [104], true, true, [29, 103], false⟩,  -- 369 duckdb_transpiler/io/_validation.py:110
+  ⟨945, 946, 122, 0, [117], true, true, [112, 91, 29, 114], false⟩,  -- 370 duckdb_transpiler/io/_validation.py:122
+  ⟨945, 946, 129, 0, [117], true, true, [112, 91, 29, 114], false⟩,  -- 371 duckdb_transpiler/io/_validation.py:129
+  ⟨945, 946, 147, 0, [117], true, true, [112, 91, 29, 114], false⟩,  -- 372 duckdb_transpiler/io/_validation.py:147
+  ⟨945, 946, 154, 0, [117], true, true, [112, 91, 29, 114], false⟩,  -- 373 duckdb_transpiler/io/_validation.py:154
+  ⟨945, 946, 163, 0, [117], true, true, [112, 91, 29, 114], false⟩,  -- 374 duckdb_transpiler/io/_validation.py:163
+  ⟨945, 947, 282, 0, [120], true, true, [29, 119], false⟩,  -- 375 duckdb_transpiler/io/_validation.py:282
+  ⟨945, 948, 293, 0, [96], true, true, [24], false⟩,  -- 376 duckdb_transpiler/io/_validation.py:293
+  ⟨945, 949, 394, 0, [117], true, true, [112, 91, 29, 114], false⟩,  -- 377 duckdb_transpiler/io/_validation.py:394
+  ⟨945, 950, 480, 0, [110], true, true, [108, 29], false⟩,  -- 378 duckdb_transpiler/io/_validation.py:480
+  ⟨945, 951, 493, 1, [25], true, true, [24, 22], false⟩,  -- 379 duckdb_transpiler/io/_validation.py:493
+  ⟨952, 953, 21, 1, [47], true, true, [46, 44], false⟩,  -- 380 files/output/_time_period_representation.py:21
+  ⟨954, 955, 62, 0, [96], true, true, [24], false⟩,  -- 381 files/parser/__init__.py:62
+  ⟨954, 955, 64, 0, [96], true, true, [24], false⟩,  -- 382 files/parser/__init__.py:64
+  ⟨954, 955, 79, 1, [18], true, true, [24], false⟩,  -- 383 files/parser/__init__.py:79
+  ⟨954, 955, 83, 1, [54], true, true, [52, 50], false⟩,  -- 384 files/parser/__init__.py:83
+  ⟨954, 955, 93, 1, [25], true, true, [24, 22], false⟩,  -- 385 files/parser/__init__.py:93
+  ⟨954, 956, 121, 1, [20], true, true, [24, 22], false⟩,  -- 386 files/parser/__init__.py:121
+  ⟨954, 956, 128, 1, [110], true, true, [108, 29], false⟩,  -- 387 files/parser/__init__.py:128
+  ⟨954, 957, 177, 0, [142], true, true, [141, 29], false⟩,  -- 388 files/parser/__init__.py:177
+  ⟨954, 958, 199, 0, [110], true, true, [108, 29], false⟩,  -- 389 files/parser/__init__.py:199
+  ⟨954, 958, 206, 0, [104], true, true, [29, 103], false⟩,  -- 390 files/parser/__init__.py:206
+  ⟨954, 958, 209, 0, [106], true, true, [29], false⟩,  -- 391 files/parser/__init__.py:209
+  ⟨954, 958, 269, 0, [117], true, true, [112, 91, 29, 114], false⟩,  -- 392 files/parser/__init__.py:269
+  ⟨954, 959, 283, 0, [120], true, true, [29, 119], false⟩,  -- 393 files/parser/__init__.py:283
+  ⟨954, 960, 326, 1, [11], true, true, [9], false⟩,  -- 394 files/parser/__init__.py:326
+  ⟨961, 962, 105, 0, [123], true, true, [91, 24], false⟩,  -- 395 files/sdmx_handler.py:105
+  ⟨961, 962, 112, 0, [126], true, true, [24], false⟩,  -- 396 files/sdmx_handler.py:112
+  ⟨961, 963, 148, 0, [123], true, true, [91, 24], false⟩,  -- 397 files/sdmx_handler.py:148
+  ⟨961, 963, 155, 0, [126], true, true, [24], false⟩,  -- 398 files/sdmx_handler.py:155
+  ⟨961, 964, 215, 1, [20], true, true, [24, 22], false⟩  -- 399 files/sdmx_handler.py:215
 ]
 def raiseSites8 : List Site := [
-  ⟨956, 960, 252, 0, [132], true, true, [91, 24], false⟩,  -- 400 files/sdmx_handler.py:252
-  ⟨956, 960, 257, 0, [134], true, true, [24], false⟩,  -- 401 files/sdmx_handler.py:257
-  ⟨956, 960, 262, 0, [134], true, true, [24], false⟩  -- 402 files/sdmx_handler.py:262
+  ⟨961, 964, 224, 1, [110], true, true, [108, 29], false⟩,  -- 400 files/sdmx_handler.py:224
+  ⟨961, 965, 252, 0, [132], true, true, [91, 24], false⟩,  -- 401 files/sdmx_handler.py:252
+  ⟨961, 965, 257, 0, [134], true, true, [24], false⟩,  -- 402 files/sdmx_handler.py:257
+  ⟨961, 965, 262, 0, [134], true, true, [24], false⟩  -- 403 files/sdmx_handler.py:262
 ]
 def raiseSites : List Site := raiseSites0 ++ raiseSites1 ++ raiseSites2 ++ raiseSites3 ++ raiseSites4 ++ raiseSites5 ++ raiseSites6 ++ raiseSites7 ++ raiseSites8
 
 /-- Certificate computed by the translator with the Python twin of `siteOkB`; `Props/C26.bad_sites_exact`
     makes the kernel re-compute it, so nothing about it is trusted. -/
-def claimedBad : List Nat := [120, 146, 219, 237, 276, 399]
-def uncodedSites : Nat := 19
+def claimedBad : List Nat := []
+def uncodedSites : Nat := 20
 
 end VtlModel.Gen.RaiseSites
